@@ -1,20 +1,30 @@
 """C08 — seeded runs are reproducible, explicit generators are isolated.
 
-Three things happen here.
+What happens here.
 
 1. `pre_build()` MEASURES, on the working tree, the dependency set of every stochastic API component
    (which of: python `random`, numpy global `RandomState`, the generator handed in, OS entropy it
-   touches with `rng=None` and with an explicit generator) and writes the table to
-   `lean/PybropsModel/Generated/C08Deps.lean`.  `Props/C08.lean` has obligations over that table that
-   are closed by `decide`; they stop compiling when a component starts reading an unseeded source or
-   stops honouring its `rng` argument (other than through a `finding:` line of KNOWN_FINDINGS.txt).
-2. Cases are *programs* of stochastic API calls.  `run_impl` executes each program twice in this
-   process after two different prior histories and records, per step, digests of the result, of both
-   global streams and of every live generator, plus where OS entropy was acquired.
+   touches with `rng=None` and with an explicit generator; for classes of long-lived objects also what the
+   constructor / `rng` setter touches and the fifth source `cached`: a method call after `seed(s)` depends on
+   private state the object acquired before the re-seeding) and writes the table to
+   `lean/PybropsModel/Generated/C08Deps.lean`.  It also scans the AST of EVERY pybrops module for calls of
+   numpy.random.* / random.* / default_rng() / SeedSequence() / os.urandom / clocks / uses of global_prng, records
+   (sys.monitoring) which measured component executes the enclosing function, and writes
+   `Generated/C08Static.lean`.  `Props/C08.lean` has obligations over both tables that are closed by `decide`;
+   they stop compiling when a component starts reading an unseeded source, stops honouring its `rng`
+   argument, caches generator-derived state, or when a new global / OS / clock reader appears anywhere
+   (other than through a `finding:` line of KNOWN_FINDINGS.txt).
+2. Cases are *programs* of stochastic API calls, including long-lived objects (`new` / `use` / `setrng`) built in a
+   set-up before the re-seeding.  `run_impl` executes each program twice in this process after two different
+   prior histories — with `share` the second execution CONTINUES with the objects of the first — and records, per
+   step, digests of the result, of both global streams and of every live generator, plus where OS entropy was
+   acquired.  Input arrays are long-lived too (one array object per argument, restored between cases).
 3. The Lean driver predicts from the compiled table which streams each step advances and which
-   observables must coincide (`c08.predict`, correspondence) and evaluates the property's Spec on the
-   implementation's digests (`c08.spec_repro`, `c08.spec_isolated`).
+   observables must coincide (`c08.predict`, correspondence), evaluates the property's Spec on the
+   implementation's digests (`c08.spec_repro`, `c08.spec_isolated`), and runs the literal model of
+   `seed()` / `spawn()` on primitives recorded from the standard library (`c08.prim_run`).
 """
+import ast
 import contextlib
 import copy
 import hashlib
@@ -32,6 +42,7 @@ from ..core import Prop
 compat.install()
 
 GEN_FILE = os.path.join(bridge.LEAN, "PybropsModel", "Generated", "C08Deps.lean")
+STATIC_FILE = os.path.join(bridge.LEAN, "PybropsModel", "Generated", "C08Static.lean")
 _RAND = numpy.random.mtrand._rand          # numpy's legacy global RandomState (= pybrops global_prng)
 
 
@@ -126,6 +137,17 @@ def _caller_module(depth=2):
     return "?"
 
 
+def _pybrops_caller(depth=2):
+    """innermost pybrops module on the stack (a library such as DEAP may sit between it and `random`)"""
+    f = sys._getframe(depth)
+    while f is not None:
+        m = f.f_globals.get("__name__", "?")
+        if m.startswith("pybrops"):
+            return m
+        f = f.f_back
+    return None
+
+
 class Tracer:
     """records OS-entropy acquisitions and numpy.random.<fn> module-function calls while `cur` is a set pair"""
 
@@ -134,6 +156,7 @@ class Tracer:
         self.npfn_sites = None
         self._saved = []
         self._depth = 0
+        self.exec_index = 0     # added to os.getpid() when pybrops asks for it (0 in the first execution of a case)
         self.oracle = None      # None: the real OS; an int key: deterministic substitute bytes (perturbation runs)
         self._count = 0
 
@@ -164,9 +187,21 @@ class Tracer:
                 return out[:n]
             return orig_os(n)
 
-        self._saved = [(random, "_urandom", orig_u), (os, "urandom", orig_os)]
+        orig_pid = os.getpid
+
+        def getpid():
+            # process identity is entropy the seed does not control: the two executions of a case see different ones
+            m = _pybrops_caller()
+            if m is None:
+                return orig_pid()
+            if tr.os_sites is not None:
+                tr.os_sites.add("os:getpid:" + m)
+            return orig_pid() + tr.exec_index
+
+        self._saved = [(random, "_urandom", orig_u), (os, "urandom", orig_os), (os, "getpid", orig_pid)]
         random._urandom = urandom
         os.urandom = urandom
+        os.getpid = getpid
         for name in dir(numpy.random):
             fn = getattr(numpy.random, name)
             if name.startswith("_") or name in ("seed", "get_state", "set_state", "get_bit_generator", "set_bit_generator"):
@@ -181,6 +216,22 @@ class Tracer:
                     return wrapped
                 self._saved.append((numpy.random, name, fn))
                 setattr(numpy.random, name, mk(fn))
+        for name in dir(random):
+            fn = getattr(random, name)
+            if name.startswith("_") or name in ("seed", "getstate", "setstate"):
+                continue
+            if getattr(fn, "__self__", None) is random._inst:
+                def mkpy(fn):
+                    def wrapped(*a, **k):
+                        if tr.npfn_sites is not None:
+                            m = _pybrops_caller()
+                            if m and not m.startswith("pybrops.core.random.prng"):
+                                tr.npfn_sites.add("pyfn:" + m)
+                        return fn(*a, **k)
+                    wrapped.__wrapped_c08__ = fn
+                    return wrapped
+                self._saved.append((random, name, fn))
+                setattr(random, name, mkpy(fn))
         return self
 
     def __exit__(self, *a):
@@ -282,14 +333,37 @@ def fixtures():
     k = r.randint(-2, 3, size=(5, 5)).astype(float)
     k = (k + k.T) / 2.0
     numpy.fill_diagonal(k, 0.0)
-    _FX = {"pg": pg, "gm": gm, "bv": bv, "kmat": k, "ntaxa": ntaxa, "nvrnt": nvrnt, "ntrait": ntrait,
-           "probs": {}}
+    # a coancestry matrix with duplicated taxa: PSD in exact arithmetic, one eigenvalue slightly negative in floats
+    z = r.randint(0, 3, size=(4, 9)).astype(float) - 1.0
+    z = numpy.concatenate([z, z[:2]])
+    kd = z.dot(z.T) / 7.0
+    _FX = {"pg": pg, "gm": gm, "bv": bv, "kmat": k, "kmat_psd_but_for_rounding": kd, "ntaxa": ntaxa, "nvrnt": nvrnt,
+           "ntrait": ntrait, "probs": {}, "uncon_w": r.randint(0, 6, size=20).astype(float)}
     random.setstate(st_py)
     numpy.random.set_state(st_np)
     return _FX
 
 
+# ---- long-lived INPUT arrays: built once, handed to every call (a component that permutes or overwrites
+# an argument in place changes what the next call sees); restored in place at the start of every case
+_SH = {}
+
+
+def shared(key, build):
+    if key not in _SH:
+        a = build()
+        _SH[key] = (a, a.copy())
+    return _SH[key][0]
+
+
+def restore_shared():
+    for a, pristine in _SH.values():
+        if a.shape == pristine.shape:
+            a[...] = pristine
+
+
 _BIG = {}
+HC_LARGE = 5000                 # decision-space size of the hill climber's `@large` variant (> 4096)
 SIZES = (12000, 70000)          # decision-space sizes of the `@large` variants (v even / v odd)
 
 
@@ -322,12 +396,12 @@ def big_kmat(n):
 def prepare_large():
     """build every large fixture before anything is observed (RandomState(seed) acquires OS entropy)"""
     big_pgmat()
-    for n in (100, 160):
+    for n in (70, 110):
         big_kmat(n)
     for _m, _c, kind, nobj in GA_CLASSES:
         for v in (0, 1):
             big_problem(kind, nobj, _ga_size(kind, v))
-    big_problem("subset1", 1, SIZES[0])
+    big_problem("subset1", 1, HC_LARGE)
 
 
 def big_problem(kind, nobj, n):
@@ -383,79 +457,170 @@ def _problem(kind, nobj):
 
 
 def _xconfig(nparent, v):
-    base = numpy.arange(3 * nparent).reshape(3, nparent)
-    return (base * (v + 1) + v) % fixtures()["ntaxa"]
+    def build():
+        base = numpy.arange(3 * nparent).reshape(3, nparent)
+        return (base * (v + 1) + v) % fixtures()["ntaxa"]
+    return shared(("xconfig", nparent, v), build)
+
+
+def _mate_args(nparent, v):
+    """(xconfig, nmating, nprogeny, nself): scalars for v < 3, per-cross arrays with unequal entries above"""
+    xc = _xconfig(nparent, v % 3)
+    if v < 3:
+        return xc, 1, 1 + v % 2, v % 2
+    nm = shared(("nmating", v), lambda: numpy.array([1, 2, 1]))
+    npg = shared(("nprogeny", v), lambda: numpy.array([2, 1, 3]))
+    return xc, nm, npg, (v - 3) % 3          # nself 0, 1, 2
+
+
+def _mate_out(out):
+    # progeny names / family numbers come from the protocol's counters (not part of the property): the
+    # genotypes and the family STRUCTURE are what the generator decides
+    return [out.mat, out.taxa_grp - out.taxa_grp.min()]
+
+
+def _mate_cls(clsname):
+    import importlib
+    return getattr(importlib.import_module("pybrops.breed.prot.mate." + clsname), clsname)
 
 
 def _mate(clsname, nparent):
     def run(rng, v):
-        import importlib
-        cls = getattr(importlib.import_module("pybrops.breed.prot.mate." + clsname), clsname)
         fx = fixtures()
-        m = cls(rng=rng)
-        out = m.mate(fx["pg"], _xconfig(nparent, v), 1, 1 + v % 2, nself=v % 2)
+        m = _mate_cls(clsname)(rng=rng)
+        xc, nm, npg, nself = _mate_args(nparent, v)
+        out = m.mate(fx["pg"], xc, nm, npg, nself=nself)
         return [out.mat, out.taxa, out.taxa_grp]
     return run
 
 
-def _phenotype(rng, v):
+def _mate_obj(clsname, nparent):
+    def new(rng, v):
+        return _mate_cls(clsname)(rng=rng), None
+
+    def use(m, v):
+        xc, nm, npg, nself = _mate_args(nparent, v)
+        return _mate_out(m.mate(fixtures()["pg"], xc, nm, npg, nself=nself))
+    return new, use
+
+
+def _pheno_new(rng, v):
     from pybrops.breed.prot.pt.G_E_Phenotyping import G_E_Phenotyping
     fx = fixtures()
-    pt = G_E_Phenotyping(fx["gm"], nenv=1 + v % 2, nrep=2, var_env=1.0, var_rep=0.5, var_err=1.0 + v, rng=rng)
-    return pt.phenotype(fx["pg"])
+    if v < 3:
+        return G_E_Phenotyping(fx["gm"], nenv=1 + v % 2, nrep=2, var_env=1.0, var_rep=0.5, var_err=1.0 + v, rng=rng)
+    # per-trait arrays with unequal entries, one replicate, non-default location
+    nrep = shared(("pt_nrep",), lambda: numpy.array([1, 3])) if v == 5 else 1 + v % 2     # per-environment array
+    return G_E_Phenotyping(fx["gm"], nenv=2, nrep=nrep, var_env=shared(("venv", v), lambda: numpy.array([0.5, 2.0])),
+                           var_rep=shared(("vrep", v), lambda: numpy.array([0.25, 0.0])),
+                           var_err=shared(("verr", v), lambda: numpy.array([1.0, 3.0])), rng=rng)
+
+
+def _phenotype(rng, v):
+    return _pheno_new(rng, v).phenotype(fixtures()["pg"])
+
+
+_SUS_P = {0: [1.0, 2.0, 0.5, 3.0, 1.5, 0.25, 0.75], 1: [1.0, 2.0, 0.5, 3.0, 1.5, 0.25, 0.75],
+          2: [1.0] * 7,                                   # exact ties
+          3: [0.0, 2.0, 0.0, 2.0, 1.0, 0.0, 1.0],         # zero weights
+          4: [1e-8, 1.0, 1e-5, 25000.0, 25000.5, 1.0, 1e-8],
+          5: [3.0, 3.0, 3.0, 1.0, 1.0, 1.0, 2.0]}
 
 
 def _sus(rng, v):
     import pybrops.core.random.sampling as S
-    return S.stochastic_universal_sampling(numpy.arange(7), numpy.array([1.0, 2.0, 0.5, 3.0, 1.5, 0.25, 0.75]),
-                                           5 + v, rng)
+    a = shared(("sus_a",), lambda: numpy.arange(7))
+    p = shared(("sus_p", v), lambda: numpy.array(_SUS_P[v % 6]))
+    size = [5, 6, 7, (2, 4), 14, 1][v % 6]               # 7 = exactly one pointer per option
+    return S.stochastic_universal_sampling(a, p, size, rng)
+
+
+_TILED = {0: ((3, 2), False, False), 1: ((4, 2), False, False), 2: ((2, 2), False, False),
+          3: ((6, 2), False, False), 4: (5, True, True), 5: ((5, 2), False, True)}   # (size, replace, with p)
 
 
 def _tiled(rng, v):
     import pybrops.core.random.sampling as S
-    return S.tiled_choice(numpy.arange(5), (3 + v, 2), False, None, rng)
+    a = shared(("tiled_a",), lambda: numpy.arange(6) * 3 + 1)       # 6 options: (3,2) = one complete set
+    size, replace, with_p = _TILED[v % 6]
+    p = shared(("tiled_p",), lambda: numpy.array([0.1, 0.2, 0.3, 0.1, 0.2, 0.1])) if with_p else None
+    return S.tiled_choice(a, size, replace, p, rng)
 
 
 def _axis_shuffle(rng, v):
     import pybrops.core.random.sampling as S
-    a = numpy.arange(12 + 4 * v).reshape(-1, 4)
-    S.axis_shuffle(a, 1, rng)
+    a = numpy.arange(12 + 4 * (v % 3)).reshape(-1, 4)               # shuffled in place by contract: a fresh array
+    if v >= 3:
+        a = numpy.asfortranarray(a)
+    S.axis_shuffle(a, (1, -1, (1,))[v % 3], rng)
     return a
 
 
 def _outcross(rng, v):
     import pybrops.core.random.sampling as S
     a = numpy.array([[0, 0], [1, 1], [2, 3], [3, 2 + v % 2]])
+    if v >= 3:
+        a = numpy.array([[0, 0, 1], [1, 1, 2], [2, 2, 0]])
     S.outcross_shuffle(a, rng)
     return a
 
 
-def _cfg(clsname, decn, mate=False):
-    def run(rng, v):
+_CFG_NCROSS = (3, 4, 2, 5, 1, 6)
+
+
+def _cfg_new(clsname, decn, mate=False):
+    def new(rng, v):
         import importlib
         cls = getattr(importlib.import_module("pybrops.breed.prot.sel.cfg." + clsname), clsname)
         fx = fixtures()
-        kw = dict(ncross=3 + v, nparent=2, nmating=1, nprogeny=1, pgmat=fx["pg"], xconfig_decn=numpy.array(decn), rng=rng)
+        kw = dict(ncross=_CFG_NCROSS[v % 6], nparent=2, nmating=1, nprogeny=1, pgmat=fx["pg"],
+                  xconfig_decn=shared(("decn", clsname), lambda: numpy.array(decn)), rng=rng)
         if mate:
-            kw["xconfig_xmap"] = numpy.array([[0, 1], [2, 3], [4, 5], [6, 7], [8, 9]])
+            kw["xconfig_xmap"] = shared(("xmap",), lambda: numpy.array([[0, 1], [2, 3], [4, 5], [6, 7], [8, 9]]))
         c = cls(**kw)
-        first = c.xconfig.copy()
-        second = c.sample_xconfig(return_xconfig=True)
-        return [first, second]
+        return c, c.xconfig.copy()
+    return new
+
+
+def _cfg_use(c, v):
+    return c.sample_xconfig(return_xconfig=True)
+
+
+def _cfg(clsname, decn, mate=False):
+    new = _cfg_new(clsname, decn, mate)
+
+    def run(rng, v):
+        c, first = new(rng, v)
+        return [first, _cfg_use(c, v)]
     return run
 
 
-def _opt(modname, clsname, kind, nobj, ga=True):
-    def run(rng, v):
-        import importlib
-        cls = getattr(importlib.import_module("pybrops.opt.algo." + modname), clsname)
-        prob = _problem(kind, nobj)
+def _opt_cls(modname, clsname):
+    import importlib
+    return getattr(importlib.import_module("pybrops.opt.algo." + modname), clsname)
+
+
+def _opt_new(modname, clsname, ga=True):
+    def new(rng, v):
+        cls = _opt_cls(modname, clsname)
         if ga:
-            a = cls(ngen=2, pop_size=8, rng=rng) if rng is not None else cls(ngen=2, pop_size=8)
-        else:
-            a = cls(rng=rng)
-        s = a.minimize(prob)
+            return (cls(ngen=2, pop_size=8, rng=rng) if rng is not None else cls(ngen=2, pop_size=8)), None
+        return cls(rng=rng), None
+    return new
+
+
+def _opt_use(kind, nobj):
+    def use(a, v):
+        s = a.minimize(_problem(kind, nobj))
         return [s.soln_decn, s.soln_obj]
+    return use
+
+
+def _opt(modname, clsname, kind, nobj, ga=True):
+    new, use = _opt_new(modname, clsname, ga), _opt_use(kind, nobj)
+
+    def run(rng, v):
+        return use(new(rng, v)[0], v)
     return run
 
 
@@ -469,10 +634,21 @@ def _opt_det(modname, clsname):
 
 
 def _jitter(rng, v):
-    from pybrops.popgen.cmat.DenseMolecularCoancestryMatrix import DenseMolecularCoancestryMatrix as DenseCoancestryMatrix
+    import pybrops.popgen.cmat.DenseMolecularCoancestryMatrix as M
+    import pybrops.popgen.cmat.DenseVanRadenCoancestryMatrix as V
     fx = fixtures()
-    c = DenseCoancestryMatrix(fx["kmat"].copy() * (1 + v))
-    ok = c.apply_jitter(eigvaltol=-1.0, minjitter=3.0 * (1 + v), maxjitter=9.0 * (1 + v), nattempt=50)
+    cls = (M.DenseMolecularCoancestryMatrix, V.DenseVanRadenCoancestryMatrix)[v % 2]    # both inherit apply_jitter
+    k = fx["kmat"] if v < 3 else fx["kmat_psd_but_for_rounding"]
+    c = cls(k.copy() * (1 + v % 3))          # (jittered in place by contract: a copy)
+    import warnings
+    with warnings.catch_warnings():
+        warnings.simplefilter("ignore")
+        if v == 2:                               # jitter far too small: every attempt fails, the diagonal is restored
+            ok = c.apply_jitter(eigvaltol=-1.0, minjitter=1e-12, maxjitter=1e-11, nattempt=3)
+        elif v < 3:
+            ok = c.apply_jitter(eigvaltol=-1.0, minjitter=3.0 * (1 + v), maxjitter=9.0 * (1 + v), nattempt=50)
+        else:                                    # duplicated taxa: one eigenvalue is ~ -1e-17, default tolerance
+            ok = c.apply_jitter(eigvaltol=2e-14, minjitter=1e-10, maxjitter=1e-6, nattempt=100)
     return [bool(ok), c.mat]
 
 
@@ -480,13 +656,17 @@ def _embv(rng, v):
     from pybrops.model.embvmat.DenseExpectedMaximumBreedingValueMatrix import DenseExpectedMaximumBreedingValueMatrix
     fx = fixtures()
     sub = fx["pg"].select_taxa(numpy.arange(3 + v % 2))
-    m = DenseExpectedMaximumBreedingValueMatrix.from_gmod(fx["gm"], sub, nprogeny=3, nrep=2)
+    if v == 5:      # per-taxon arrays with unequal entries
+        m = DenseExpectedMaximumBreedingValueMatrix.from_gmod(
+            fx["gm"], sub, nprogeny=shared(("embv_np",), lambda: numpy.array([2, 4, 3, 5])),
+            nrep=shared(("embv_nr",), lambda: numpy.array([1, 3, 2, 1])))
+    else:
+        m = DenseExpectedMaximumBreedingValueMatrix.from_gmod(fx["gm"], sub, nprogeny=3 + v // 2, nrep=2 + v // 4)
     return m.mat
 
 
-def _select(protname):
-    def run(rng, v):
-        import importlib
+def _select_new(protname):
+    def new(rng, v):
         fx = fixtures()
         from pybrops.opt.algo.SteepestDescentSubsetHillClimber import SteepestDescentSubsetHillClimber
         if protname == "EBVSubset":
@@ -501,8 +681,110 @@ def _select(protname):
                 ntrait=2, ncross=2 + v % 2, nparent=2, nmating=1, nprogeny=2, nobj=1,
                 obj_wt=numpy.array([1.0]), obj_trans=_sum_trans, rng=rng,
                 soalgo=SteepestDescentSubsetHillClimber(rng=rng))
-        cfg = prot.select(fx["pg"], fx["pg"], None, fx["bv"], fx["gm"], 0, 1)
-        return [cfg.xconfig_decn, cfg.xconfig]
+        return prot, None
+    return new
+
+
+def _select_use(prot, v):
+    fx = fixtures()
+    cfg = prot.select(fx["pg"], fx["pg"], None, fx["bv"], fx["gm"], 0, 1)
+    return [cfg.xconfig_decn, cfg.xconfig]
+
+
+def _select(protname):
+    new = _select_new(protname)
+
+    def run(rng, v):
+        return _select_use(new(rng, v)[0], v)
+    return run
+
+
+# ---- secondary entry points ------------------------------------------------------------------------------
+_WRAP_ARGS = {
+    "beta": (2.0, 3.0, 2), "binomial": (5, 0.3, 2), "bytes": (4,), "chisquare": (2.0, 2), "choice": (5, 3),
+    "dirichlet": ([1.0, 2.0], 2), "exponential": (1.0, 2), "f": (2.0, 3.0, 2), "gamma": (2.0, 1.0, 2),
+    "geometric": (0.3, 2), "gumbel": (0.0, 1.0, 2), "hypergeometric": (5, 4, 3, 2), "laplace": (0.0, 1.0, 2),
+    "logistic": (0.0, 1.0, 2), "lognormal": (0.0, 1.0, 2), "logseries": (0.5, 2), "multinomial": (5, [0.2, 0.8], 2),
+    "multivariate_normal": ([0.0, 1.0], [[1.0, 0.5], [0.5, 2.0]], 2), "negative_binomial": (3, 0.4, 2),
+    "noncentral_chisquare": (2.0, 1.0, 2), "noncentral_f": (2.0, 3.0, 1.0, 2), "normal": (0.0, 1.0, 3),
+    "pareto": (2.0, 2), "permutation": (5,), "poisson": (2.0, 2), "power": (2.0, 2), "random": (3,),
+    "rayleigh": (1.0, 2), "standard_cauchy": (2,), "standard_exponential": (2,), "standard_gamma": (2.0, 2),
+    "standard_normal": (3,), "standard_t": (3.0, 2), "triangular": (0.0, 0.5, 1.0, 2), "uniform": (0.0, 1.0, 2),
+    "vonmises": (0.0, 1.0, 2), "wald": (1.0, 1.0, 2), "weibull": (2.0, 2), "zipf": (2.0, 2),
+}
+
+
+def _wrappers(rng, v):
+    """every public wrapper of the library's global generator (pybrops.core.random.prng.<name>)"""
+    import pybrops.core.random.prng as prng
+    out = []
+    names = sorted(_WRAP_ARGS)
+    for n in names[v % 3::3] if v else names:
+        out.append(getattr(prng, n)(*_WRAP_ARGS[n]))
+    a = numpy.arange(6)
+    prng.shuffle(a)
+    out.append(a)
+    return out
+
+
+def _seed_comp(rng, v):
+    """seed() as a component: both global streams afterwards (seeds 0, 1, > 32 bit)"""
+    import pybrops.core.random.prng as prng
+    prng.seed([0, 1, 7, 2 ** 40 + 3, 12345, 2 ** 32][v % 6])
+    return [py_state(), np_state()]
+
+
+def _spawn_opts(rng, v):
+    import pybrops.core.random.prng as prng
+    gens = [prng.spawn(), *prng.spawn(2, numpy.random.MT19937), *prng.spawn(1, sbits=32 + 16 * (v % 3)),
+            *prng.spawn(1, numpy.random.Philox, 128)]
+    return [gen_state(g) for g in gens] + [g.random() for g in gens]
+
+
+def _dense_cross(rng, v):
+    """core/util/mate.py: a second copy of the meiosis / cross mechanism (rng is a mandatory argument)"""
+    import pybrops.core.util.mate as UM
+    import pybrops.core.random.prng as prng
+    fx = fixtures()
+    r = prng.global_prng if rng is None else rng
+    sel = shared(("dense_sel", v % 2), lambda: numpy.array([0, 3, 5, 1 + v % 2]))
+    geno = fx["pg"].mat
+    xo = fx["pg"].vrnt_xoprob
+    return [UM.dense_cross(geno, geno, sel, sel[::-1].copy(), xo, r), UM.dense_dh(geno, sel, xo, r)]
+
+
+def _uncon_objfn(x):
+    w = fixtures()["uncon_w"]
+    return float(w[numpy.asarray(x, dtype=int)].sum())
+
+
+def _uncon_objfn2(x):
+    w = fixtures()["uncon_w"]
+    x = numpy.asarray(x, dtype=int)
+    return (float(w[x].sum()), float((w[x] % 3).sum()))
+
+
+def _uncon_new(clsname, **kw):
+    def new(rng, v):
+        return _opt_cls(clsname, clsname)(rng=rng, **kw), None
+    return new
+
+
+def _uncon_use(multi):
+    def use(a, v):
+        if multi:
+            r = a.optimize(_uncon_objfn2, 4, numpy.arange(20), numpy.array([1.0, 1.0]))
+        else:
+            r = a.optimize(_uncon_objfn, 4, numpy.arange(20), 1.0)
+        return [numpy.asarray(r[0]), numpy.asarray(r[1])]
+    return use
+
+
+def _uncon(clsname, multi=False, **kw):
+    new, use = _uncon_new(clsname, **kw), _uncon_use(multi)
+
+    def run(rng, v):
+        return use(new(rng, v)[0], v)
     return run
 
 
@@ -556,16 +838,16 @@ def _cfg_large(clsname, mk, mate=False):
 
 
 def _ga_size(kind, v):
-    # integer problems: 30 000 variables instead of 70 000 (pymoo's integer operators take 0.5 s per call there)
+    # integer problems: 16 000 variables instead of 70 000 (pymoo's integer operators take 0.5 s per call there)
     n = SIZES[v % 2]
-    return min(n, 30000) if kind == "integer" else n
+    return min(n, 16000) if kind == "integer" else n
 
 
 def _opt_large(modname, clsname, kind, nobj, ga=True):
     def run(rng, v):
         import importlib
         cls = getattr(importlib.import_module("pybrops.opt.algo." + modname), clsname)
-        prob = big_problem(kind, nobj, _ga_size(kind, v) if ga else SIZES[0])
+        prob = big_problem(kind, nobj, _ga_size(kind, v) if ga else HC_LARGE)
         kw = {"phc": 0.0} if "SteepestDescentSubsetGenetic" in clsname else {}   # its hill climb is O(n) evaluations per sweep
         if ga:
             a = cls(ngen=2, pop_size=4, rng=rng, **kw) if rng is not None else cls(ngen=2, pop_size=4, **kw)
@@ -578,9 +860,9 @@ def _opt_large(modname, clsname, kind, nobj, ga=True):
 
 def _jitter_large(rng, v):
     from pybrops.popgen.cmat.DenseMolecularCoancestryMatrix import DenseMolecularCoancestryMatrix
-    n = 100 + 60 * (v % 2)
+    n = 70 + 40 * (v % 2)                  # 4 900 / 12 100 entries
     c = DenseMolecularCoancestryMatrix(big_kmat(n).copy())
-    ok = c.apply_jitter(eigvaltol=-1.0, minjitter=10.0 * n, maxjitter=30.0 * n, nattempt=20)
+    ok = c.apply_jitter(eigvaltol=-1.0, minjitter=10.0 * n, maxjitter=30.0 * n, nattempt=8)
     return [bool(ok), c.mat]
 
 
@@ -640,39 +922,66 @@ def components():
     for cls, k in [("TwoWayCross", 2), ("TwoWayDHCross", 2), ("ThreeWayCross", 3), ("ThreeWayDHCross", 3),
                    ("FourWayCross", 4), ("FourWayDHCross", 4), ("SelfCross", 1)]:
         c["mate." + cls] = (True, _mate(cls, k), 3)
+        OBJ["mate." + cls] = _mate_obj(cls, k)
     c["pt.G_E_Phenotyping"] = (True, _phenotype, 6)
+    OBJ["pt.G_E_Phenotyping"] = (lambda rng, v: (_pheno_new(rng, v), None), lambda o, v: o.phenotype(fixtures()["pg"]))
     c["samp.stochastic_universal_sampling"] = (True, _sus, 4)
     c["samp.tiled_choice"] = (True, _tiled, 4)
     c["samp.axis_shuffle"] = (True, _axis_shuffle, 3)
     c["samp.outcross_shuffle"] = (True, _outcross, 3)
-    c["cfg.SubsetSelectionConfiguration"] = (True, _cfg("SubsetSelectionConfiguration", [1, 3, 4, 6, 8]), 3)
-    c["cfg.IntegerSelectionConfiguration"] = (True, _cfg("IntegerSelectionConfiguration", [0, 2, 1, 0, 3, 0, 1, 0, 2, 1]), 2)
-    c["cfg.RealSelectionConfiguration"] = (True, _cfg("RealSelectionConfiguration", [0.0, 0.2, 0.1, 0.0, 0.3, 0.0, 0.1, 0.0, 0.2, 0.1]), 2)
-    c["cfg.BinarySelectionConfiguration"] = (True, _cfg("BinarySelectionConfiguration", [0, 1, 1, 0, 1, 0, 1, 0, 1, 1]), 2)
-    c["cfg.SubsetMateSelectionConfiguration"] = (True, _cfg("SubsetMateSelectionConfiguration", [0, 2, 3, 4], mate=True), 2)
-    c["opt.SteepestDescentSubsetHillClimber"] = (True, _opt("SteepestDescentSubsetHillClimber", "SteepestDescentSubsetHillClimber", "subset", 1, ga=False), 3)
+    for nm, decn, mate, w in [
+            ("SubsetSelectionConfiguration", [1, 3, 4, 6, 8, 9], False, 3),      # 6 selected: ncross 3 = one complete set
+            ("IntegerSelectionConfiguration", [0, 2, 1, 0, 3, 0, 1, 0, 2, 1], False, 2),
+            ("RealSelectionConfiguration", [0.0, 0.2, 0.1, 0.0, 0.3, 0.0, 0.1, 0.0, 0.2, 0.1], False, 2),
+            ("BinarySelectionConfiguration", [0, 1, 1, 0, 1, 0, 1, 0, 1, 1], False, 2),
+            ("SubsetMateSelectionConfiguration", [0, 2, 3, 4], True, 2),
+            ("IntegerMateSelectionConfiguration", [1, 0, 2, 1, 0], True, 0.7),
+            ("RealMateSelectionConfiguration", [0.25, 0.0, 0.5, 0.125, 0.125], True, 0.7),
+            ("BinaryMateSelectionConfiguration", [1, 0, 1, 1, 0], True, 0.7)]:
+        c["cfg." + nm] = (True, _cfg(nm, decn, mate), w)
+        OBJ["cfg." + nm] = (_cfg_new(nm, decn, mate), _cfg_use)
+    hc = "SteepestDescentSubsetHillClimber"
+    c["opt." + hc] = (True, _opt(hc, hc, "subset", 1, ga=False), 3)
+    OBJ["opt." + hc] = (_opt_new(hc, hc, ga=False), _opt_use("subset", 1))
     c["opt.SortingSubsetOptimizationAlgorithm"] = (False, _opt_det("SortingSubsetOptimizationAlgorithm", "SortingSubsetOptimizationAlgorithm"), 1)
     c["opt.SortingSteepestDescentSubsetHillClimber"] = (False, _opt_det("SortingSteepestDescentSubsetHillClimber", "SortingSteepestDescentSubsetHillClimber"), 1)
-    for mod, cls, kind, nobj in [
-            ("SubsetGeneticAlgorithm", "SubsetGeneticAlgorithm", "subset", 1),
-            ("NSGA2SubsetGeneticAlgorithm", "NSGA2SubsetGeneticAlgorithm", "subset", 2),
-            ("NSGA3SubsetGeneticAlgorithm", "NSGA3SubsetGeneticAlgorithm", "subset", 2),
-            ("RealGeneticAlgorithm", "RealGeneticAlgorithm", "real", 1),
-            ("NSGA2RealGeneticAlgorithm", "NSGA2RealGeneticAlgorithm", "real", 2),
-            ("IntegerGeneticAlgorithm", "IntegerGeneticAlgorithm", "integer", 1),
-            ("NSGA2IntegerGeneticAlgorithm", "NSGA2IntegerGeneticAlgorithm", "integer", 2),
-            ("BinaryGeneticAlgorithm", "BinaryGeneticAlgorithm", "binary", 1),
-            ("NSGA2BinaryGeneticAlgorithm", "NSGA2BinaryGeneticAlgorithm", "binary", 2)]:
-        c["opt." + cls] = (True, _opt(mod, cls, kind, nobj), 0.25)
-    for cls in ("NSGA2SteepestDescentSubsetGeneticAlgorithm", "NSGA2StochasticDescentSubsetGeneticAlgorithm",
-                "NSGA2MutatorASubsetGeneticAlgorithm", "NSGA2MutatorBSubsetGeneticAlgorithm"):
-        c["opt." + cls] = (True, _opt("NSGA2MemeticSubsetGeneticAlgorithm", cls, "subset", 2), 0.2)
+    for mod, cls, kind, nobj in GA_CLASSES:
+        c["opt." + cls] = (True, _opt(mod, cls, kind, nobj), 0.25 if mod == cls else 0.2)
+        OBJ["opt." + cls] = (_opt_new(mod, cls), _opt_use(kind, nobj))
     c["cmat.apply_jitter"] = (False, _jitter, 3)
     c["embv.from_gmod"] = (False, _embv, 3)
     c["sel.EBVSubset.select"] = (True, _select("EBVSubset"), 1)
+    OBJ["sel.EBVSubset.select"] = (_select_new("EBVSubset"), _select_use)
     c["sel.RandomSubset.select"] = (True, _select("RandomSubset"), 0.5)
+    OBJ["sel.RandomSubset.select"] = (_select_new("RandomSubset"), _select_use)
+    # secondary entry points
+    c["prng.seed"] = (False, _seed_comp, 0.5)
+    c["prng.wrappers"] = (False, _wrappers, 2)
+    c["prng.spawn_opts"] = (False, _spawn_opts, 1)
+    c["util.dense_cross"] = (True, _dense_cross, 1.5)
+    for cls, multi, kw in [("UnconstrainedSetGeneticAlgorithm", False, dict(ngen=3, mu=6, lamb=6)),
+                           ("UnconstrainedNSGA2SetGeneticAlgorithm", True, dict(ngen=3, mu=8, lamb=8)),
+                           ("UnconstrainedSteepestAscentSetHillClimber", False, {})]:
+        c["opt." + cls] = (True, _uncon(cls, multi, **kw), 0.4)
+        OBJ["opt." + cls] = (_uncon_new(cls, **kw), _uncon_use(multi))
     c.update(large_components())
     return c
+
+
+OBJ = {}       # name -> (new(rng, v) -> (object, observable of the construction | None), use(object, v) -> result)
+
+
+def has_obj(name):
+    comps()
+    return name in OBJ
+
+
+def set_rng(name, obj, rng):
+    """`obj.rng = rng` — for a selection protocol also on the optimiser it owns (the protocol and its `soalgo` are
+    two holders of the generator the caller configured the protocol with)"""
+    obj.rng = rng
+    if name.startswith("sel.") and getattr(obj, "soalgo", None) is not None:
+        obj.soalgo.rng = rng
 
 
 _COMPS = None
@@ -696,6 +1005,425 @@ def make_gen(spec):
     if kind == "rs":
         return numpy.random.RandomState(int(s))
     raise ValueError(kind)
+
+
+# ------------------------------------------------------------------------------------------------
+# static tie: AST scan of every pybrops module for entropy call sites; which measured component executes them
+# ------------------------------------------------------------------------------------------------
+_NP_CTORS = {"default_rng", "SeedSequence", "RandomState", "Generator", "PCG64", "PCG64DXSM", "MT19937", "Philox",
+             "SFC64", "BitGenerator"}
+_NP_IGNORE = {"mtrand", "bit_generator", "_generator", "_pcg64", "_mt19937", "_philox", "_sfc64"}
+_PY_CTORS = {"Random", "SystemRandom"}
+_TIME_FNS = {"time", "time_ns", "perf_counter", "perf_counter_ns", "monotonic", "monotonic_ns", "process_time",
+             "process_time_ns", "now", "utcnow", "today"}
+
+
+def _scan_source(src, mod):
+    tree = ast.parse(src)
+    np_alias, nprand_alias, pyrand_alias, os_alias, time_alias = set(), set(), set(), set(), set()
+    from_names = {}
+    for node in ast.walk(tree):
+        if isinstance(node, ast.Import):
+            for a in node.names:
+                nm = a.asname or a.name.split(".")[0]
+                if a.name == "numpy":
+                    np_alias.add(nm)
+                elif a.name == "numpy.random":
+                    (nprand_alias if a.asname else np_alias).add(a.asname or "numpy")
+                elif a.name == "random":
+                    pyrand_alias.add(nm)
+                elif a.name == "os":
+                    os_alias.add(nm)
+                elif a.name in ("time", "datetime", "secrets", "uuid"):
+                    time_alias.add(nm)
+        elif isinstance(node, ast.ImportFrom) and node.module:
+            for a in node.names:
+                from_names[a.asname or a.name] = (node.module, a.name)
+                if node.module == "numpy" and a.name == "random":
+                    nprand_alias.add(a.asname or a.name)
+    sites = []
+
+    def dotted(n):
+        parts = []
+        while isinstance(n, ast.Attribute):
+            parts.append(n.attr)
+            n = n.value
+        if isinstance(n, ast.Name):
+            parts.append(n.id)
+            return list(reversed(parts))
+        return None
+
+    def classify(d):
+        """(family, name) of a dotted reference, or None"""
+        if d[0] in from_names and len(d) >= 1:
+            m, a = from_names[d[0]]
+            if m == "numpy.random":
+                return ("np", a)
+            if m == "random":
+                return ("py", a)
+            if m == "os" and a in ("urandom", "getrandom", "getpid", "getppid", "times"):
+                return ("os", a)
+            if m == "time" and a in _TIME_FNS:
+                return ("time", a)
+            if m == "datetime" and len(d) >= 2 and d[1] in _TIME_FNS:
+                return ("time", a + "." + d[1])
+            if m in ("secrets", "uuid"):
+                return ("os", m + "." + a)
+            if m.endswith("random.prng") and a == "global_prng":
+                return ("gprng", a)
+            if m == "numpy" and a == "random" and len(d) >= 2:
+                return ("np", d[1])
+        if len(d) >= 3 and d[0] in np_alias and d[1] == "random":
+            return ("np", d[2])
+        if len(d) >= 2 and d[0] in nprand_alias:
+            return ("np", d[1])
+        if len(d) >= 2 and d[0] in pyrand_alias:
+            return ("py", d[1])
+        if len(d) >= 2 and d[0] in os_alias and d[1] in ("urandom", "getrandom", "getpid", "getppid", "times"):
+            return ("os", d[1])
+        if len(d) >= 2 and d[0] in time_alias:
+            if d[0] in ("secrets", "uuid"):
+                return ("os", ".".join(d[:2]))
+            if d[-1] in _TIME_FNS or d[1] in _TIME_FNS:
+                return ("time", ".".join(d))
+        if d == ["global_prng"] and mod.endswith("random.prng"):
+            return None
+        return None
+
+    class V(ast.NodeVisitor):
+        def __init__(self):
+            self.stack = []
+            self.called = set()
+            self.default_ok = set()
+            self.seed_ctx = 0       # > 0 inside the arguments of a seeding call / the value of a `*seed*` variable
+
+        def visit_Assign(self, n):
+            named_seed = any(isinstance(t, ast.Name) and "seed" in t.id.lower() or
+                             isinstance(t, ast.Attribute) and "seed" in t.attr.lower() for t in n.targets)
+            self.seed_ctx += named_seed
+            self.generic_visit(n)
+            self.seed_ctx -= named_seed
+
+        def qual(self):
+            return ".".join(self.stack) or "<module>"
+
+        def visit_ClassDef(self, n):
+            self.stack.append(n.name)
+            self.generic_visit(n)
+            self.stack.pop()
+
+        def visit_FunctionDef(self, n):
+            for dflt in list(n.args.defaults) + [d for d in n.args.kw_defaults if d is not None]:
+                if isinstance(dflt, ast.Name):
+                    self.default_ok.add(id(dflt))           # `def f(rng = global_prng)`
+            for dec in n.decorator_list:
+                self.visit(dec)
+            self.visit(n.args)
+            self.stack.append(n.name)
+            self.stack.append("<locals>")
+            for b in n.body:
+                self.visit(b)
+            self.stack.pop()
+            self.stack.pop()
+
+        visit_AsyncFunctionDef = visit_FunctionDef
+
+        def visit_If(self, n):
+            # `if x is None: x = global_prng`
+            t = n.test
+            if (isinstance(t, ast.Compare) and len(t.ops) == 1 and isinstance(t.ops[0], ast.Is)
+                    and isinstance(t.comparators[0], ast.Constant) and t.comparators[0].value is None):
+                for b in n.body:
+                    if isinstance(b, ast.Assign) and isinstance(b.value, ast.Name):
+                        self.default_ok.add(id(b.value))
+            self.generic_visit(n)
+
+        def visit_IfExp(self, n):
+            t = n.test
+            if (isinstance(t, ast.Compare) and len(t.ops) == 1 and isinstance(t.ops[0], (ast.Is, ast.IsNot))
+                    and isinstance(t.comparators[0], ast.Constant) and t.comparators[0].value is None):
+                for b in (n.body, n.orelse):
+                    if isinstance(b, ast.Name):
+                        self.default_ok.add(id(b))
+            self.generic_visit(n)
+
+        def add(self, kind, what):
+            # clocks and process / host identity are only entropy when they end up in a seed: elapsed-time logging,
+            # temporary file names etc. are none of this property's business (and the two executions of every
+            # case see different clocks and pids anyway, so a seed that reaches a result shows up dynamically)
+            soft = kind == "time" or (kind == "os" and (what in ("getpid", "getppid", "times") or what.startswith("uuid")))
+            if soft and self.seed_ctx == 0:
+                return
+            q = self.qual()
+            if q.endswith(".<locals>"):
+                q = q[:-len(".<locals>")]
+            sites.append((mod, q, kind, what))
+
+        def visit_Call(self, n):
+            d = dotted(n.func)
+            if d:
+                c = classify(d)
+                if c:
+                    self.called.add(id(n.func))
+                    fam, name = c
+                    unseeded = not n.args and not any(k.arg in ("seed", "entropy", "x", "a") for k in n.keywords)
+                    if fam == "np":
+                        if name in _NP_CTORS:
+                            if unseeded and name not in ("Generator", "BitGenerator"):
+                                self.add("os", name)
+                        elif name == "seed" and unseeded:
+                            self.add("os", "numpy.random.seed()")
+                        elif name not in _NP_IGNORE:
+                            self.add("np", name)
+                    elif fam == "py":
+                        if name in _PY_CTORS:
+                            if unseeded or name == "SystemRandom":
+                                self.add("os", "random." + name)
+                        elif name == "seed" and unseeded:
+                            self.add("os", "random.seed()")
+                        elif name not in ("getstate", "setstate"):
+                            self.add("py", name)
+                    elif fam in ("os", "time"):
+                        self.add(fam, name)
+                    elif fam == "gprng":
+                        self.add("gprng", "global_prng()")
+            seeding = False
+            if d:
+                c2 = classify(d)
+                seeding = bool(c2) and ((c2[0] == "np" and (c2[1] in _NP_CTORS or c2[1] == "seed"))
+                                        or (c2[0] == "py" and c2[1] in ("seed", "Random")))
+                seeding = seeding or d[-1].lower() in ("seed", "default_rng", "randomstate", "seedsequence")
+            self.seed_ctx += seeding
+            self.generic_visit(n)
+            self.seed_ctx -= seeding
+
+        def visit_Attribute(self, n):
+            if id(n) not in self.called:
+                d = dotted(n)
+                if d:
+                    c = classify(d)
+                    if c:
+                        fam, name = c
+                        if fam == "np" and name not in _NP_CTORS and name not in _NP_IGNORE and name[:1].islower():
+                            self.add("npref", name)
+                        elif fam == "py" and name not in _PY_CTORS and name[:1].islower():
+                            self.add("py", name)
+                        elif fam in ("os", "time"):
+                            self.add(fam, name)
+                        elif fam == "gprng":
+                            self.add("gprng", "global_prng." + ".".join(d[1:]))
+                        self.called.add(id(n))
+                        # do not descend: the inner attribute chain is the same reference
+                        return
+            self.generic_visit(n)
+
+        def visit_Name(self, n):
+            if n.id in from_names and id(n) not in self.called:
+                m, a = from_names[n.id]
+                if m.endswith("random.prng") and a == "global_prng":
+                    self.add("gprng-default" if id(n) in self.default_ok else "gprng", "global_prng")
+                else:
+                    c = classify([n.id])
+                    if c and c[0] in ("os", "time"):
+                        self.add(c[0], c[1])
+                    elif c and c[0] == "np" and c[1] not in _NP_CTORS and c[1][:1].islower():
+                        self.add("npref", c[1])
+                    elif c and c[0] == "py" and c[1] not in _PY_CTORS and c[1][:1].islower():
+                        self.add("py", c[1])
+
+    V().visit(tree)
+    return sites
+
+
+_SCAN = None
+_PREFILTER = __import__("re").compile(r"random|global_prng|urandom|secrets|uuid|\btime\b|datetime")
+
+
+def scan_static():
+    """[(module, function qualname, kind, what)] with multiplicity, for every module of the package"""
+    global _SCAN
+    if _SCAN is not None:
+        return _SCAN
+    root = compat.REPO
+    out = []
+    for dp, _dn, fns in os.walk(os.path.join(root, "pybrops")):
+        if os.sep + "test" in dp:
+            continue
+        for f in sorted(fns):
+            if not f.endswith(".py"):
+                continue
+            path = os.path.join(dp, f)
+            mod = os.path.relpath(path, root)[:-3].replace(os.sep, ".")
+            if mod.endswith(".__init__"):
+                mod = mod[:-len(".__init__")]
+            try:
+                src = open(path, encoding="utf-8", errors="replace").read()
+                if not _PREFILTER.search(src):       # no import of an entropy source: nothing to find
+                    continue
+                out += _scan_source(src, mod)
+            except SyntaxError:
+                out.append((mod, "<module>", "os", "unparsable-source"))
+    _SCAN = out
+    return out
+
+
+class Reach:
+    """which functions that contain a site are executed during the measurement of which component
+    (sys.monitoring PY_START on exactly those code objects: no overhead elsewhere)"""
+
+    def __init__(self):
+        self.codes = {}          # code object -> (module, qualname)
+        self.hit = set()
+        self.by_row = {}         # (module, qualname) -> [row names]
+        self.on = False
+
+    def install(self):
+        import importlib
+        import types
+        want = {}
+        for mod, q, kind, _w in scan_static():
+            if q != "<module>":
+                want.setdefault(mod, set()).add(q)
+        for mod, quals in want.items():
+            try:
+                m = importlib.import_module(mod)
+            except Exception:
+                continue
+            fname = getattr(m, "__file__", None)
+            seen = set()
+
+            def walk_code(co):
+                if co in seen:
+                    return
+                seen.add(co)
+                q = getattr(co, "co_qualname", co.co_name)
+                if q in quals:
+                    self.codes[co] = (mod, q)
+                for k in co.co_consts:
+                    if isinstance(k, types.CodeType):
+                        walk_code(k)
+
+            def walk_obj(o, depth=0):
+                if depth > 3:
+                    return
+                if isinstance(o, (staticmethod, classmethod)):
+                    o = o.__func__
+                if isinstance(o, property):
+                    for f in (o.fget, o.fset, o.fdel):
+                        if f is not None:
+                            walk_obj(f, depth + 1)
+                    return
+                co = getattr(o, "__code__", None)
+                if isinstance(co, types.CodeType):
+                    if co.co_filename == fname:
+                        walk_code(co)
+                    return
+                if isinstance(o, type) and getattr(o, "__module__", None) == mod:
+                    for v in list(vars(o).values()):
+                        walk_obj(v, depth + 1)
+            for v in list(vars(m).values()):
+                walk_obj(v)
+        mon = sys.monitoring
+        self.tool = mon.PROFILER_ID
+        try:
+            mon.use_tool_id(self.tool, "c08-reach")
+        except ValueError:
+            return False
+        mon.register_callback(self.tool, mon.events.PY_START, self._cb)
+        for co in self.codes:
+            mon.set_local_events(self.tool, co, mon.events.PY_START)
+        self.on = True
+        return True
+
+    def _cb(self, code, offset):
+        self.hit.add(code)
+        return sys.monitoring.DISABLE
+
+    def begin(self):
+        if self.on:
+            self.hit = set()
+            sys.monitoring.restart_events()
+
+    def end(self, rowname):
+        if self.on:
+            for co in self.hit:
+                key = self.codes.get(co)
+                if key:
+                    self.by_row.setdefault(key, [])
+                    if rowname not in self.by_row[key]:
+                        self.by_row[key].append(rowname)
+
+    def uninstall(self):
+        if self.on:
+            mon = sys.monitoring
+            for co in self.codes:
+                mon.set_local_events(self.tool, co, 0)
+            mon.register_callback(self.tool, mon.events.PY_START, None)
+            mon.free_tool_id(self.tool)
+            self.on = False
+
+
+def static_allow():
+    """(kind, module) pairs from the `via` tokens of the C08 `finding:` lines, plus the definition of
+    `global_prng` itself (pybrops.core.random.prng refers to numpy.random.random to get at the global RandomState)"""
+    allow = [("npref", "pybrops.core.random.prng")]
+    for f in findings.load("C08"):
+        for t in f["match"].get("via", "").split("+"):
+            if ":" not in t:
+                continue
+            k, m = t.split(":", 1)
+            if not m.startswith("pybrops"):
+                continue
+            if k == "npfn":
+                allow += [("np", m), ("npref", m)]
+            elif k == "pyfn":
+                allow.append(("py", m))
+            elif k == "gprng":
+                allow.append(("gprng", m))
+            elif k == "static":
+                allow.append(("static", m))
+    return sorted(set(allow))
+
+
+def _stream_in(kind, row):
+    if kind in ("np", "npref", "gprng"):
+        return row["glob"]["np"] and (not row["accepts"] or row["expl"]["np"])
+    if kind == "py":
+        return row["glob"]["py"] and (not row["accepts"] or row["expl"]["py"])
+    return False
+
+
+def static_table(rows, reach):
+    """sites grouped by (module, function, kind, callee) with multiplicity; `reached` = indices of (at most four)
+    measured rows that executed the function and whose measured set contains the stream the site addresses,
+    else of (at most two) rows that executed it"""
+    idx = {r["name"]: i for i, r in enumerate(rows)}
+    cnt = {}
+    for key in scan_static():
+        cnt[key] = cnt.get(key, 0) + 1
+    out = []
+    for (mod, q, kind, what), c in sorted(cnt.items()):
+        names = reach.by_row.get((mod, q), []) if reach is not None else []
+        good = [idx[n] for n in names if n in idx and _stream_in(kind, rows[idx[n]])][:4]
+        other = [idx[n] for n in names if n in idx][:2]
+        out.append({"module": mod, "func": q, "kind": kind, "what": what, "count": c, "reached": good or other})
+    return out
+
+
+def render_static(sites, allow):
+    out = ["/- GENERATED by harness/props/c08.py (pre_build): AST scan of every module under /repo/pybrops for calls of",
+           "   numpy.random.* / random.* / default_rng() / SeedSequence() / os.urandom / clocks and uses of global_prng,",
+           "   with the measured components (row indices of Generated/C08Deps.lean) that execute the enclosing function.",
+           "   Do not edit: rewritten by every `./check C08` run when the scan changes. -/",
+           "import PybropsModel.Model.Prng", "", "namespace C08Static", "open Prng", "", "def sites : List Site := ["]
+    lines = []
+    for x in sites:
+        lines.append(f"  ⟨{_lean_str(x['module'])}, {_lean_str(x['func'])}, {_lean_str(x['kind'])}, {_lean_str(x['what'])}, "
+                     f"{x['count']}, [{', '.join(str(i) for i in x['reached'])}]⟩")
+    out.append(",\n".join(lines))
+    out += ["]", "", "def allow : List (String × String) := ["
+            + ", ".join(f"({_lean_str(k)}, {_lean_str(m)})" for k, m in allow) + "]", "", "end C08Static", ""]
+    return "\n".join(out)
 
 
 # ------------------------------------------------------------------------------------------------
@@ -724,6 +1452,35 @@ def attribute_leak(name, v, gen_spec_or_state):
         numpy.random.set_state(st_np)
     sites = sorted(set(npfn_s) | set(os_s) | log)
     return sites
+
+
+def attribute_obj_leak(name, obj, v):
+    """who drew from a global stream during a method call of an object that holds its own generator?
+    Re-run on a clone of that generator with recording proxies; global states and the object's generator
+    are restored afterwards."""
+    st_py, st_np = random.getstate(), numpy.random.get_state()
+    old = getattr(obj, "rng", None)
+    log = set()
+    os_s = npfn_s = []
+    try:
+        if old is not None:
+            set_rng(name, obj, copy.deepcopy(old))
+        with TR as tr, traced_global(log):
+            tr.begin()
+            try:
+                OBJ[name][1](obj, v)
+            except Exception:
+                pass
+            os_s, npfn_s = tr.end()
+    finally:
+        if old is not None:
+            try:
+                set_rng(name, obj, old)
+            except Exception:
+                pass
+        random.setstate(st_py)
+        numpy.random.set_state(st_np)
+    return sorted(set(npfn_s) | set(os_s) | log)
 
 
 def measure_component(name, tr):
@@ -817,6 +1574,50 @@ def measure_component_at(name, tr, v0, light=False):
     return row
 
 
+def measure_object(name, tr, row):
+    """long-lived form of a component: streams touched by the constructor (rng=None / explicit), and the fifth
+    source `cached`: does the result of a method call after `seed(s)` depend on private state the object acquired
+    BEFORE the re-seeding (built under another stream state; used before; generator re-assigned)?"""
+    import pybrops.core.random.prng as prng
+    new, use = OBJ[name]
+    accepts = row["accepts"]
+    os_all = set()
+
+    def ctor(rng_of):
+        prng.seed(777)
+        own = rng_of()
+        p0, n0, o0 = py_state(), np_state(), (gen_state(own) if own is not None else None)
+        tr.begin()
+        obj, first = new(own, 0)
+        os_s, _ = tr.end()
+        os_all.update(os_s)
+        return obj, {"own": own is not None and gen_state(own) != o0, "py": py_state() != p0, "np": np_state() != n0,
+                     "os": bool(os_s)}
+
+    _o, row["ctorGlob"] = ctor(lambda: None)
+    if accepts:
+        _o, row["ctorExpl"] = ctor(lambda: make_gen(["pcg", 4242]))
+    else:
+        row["ctorExpl"] = dict(row["ctorGlob"])
+    cached = False
+    if not row["glob"]["os"]:
+        def after_history(hist):
+            restore_shared()
+            prng.seed(1000 + hist)
+            numpy.random.random(hist)
+            obj, _first = new(None, 0)
+            for _ in range(hist - 1):
+                use(obj, 0)                        # used a different number of times before the re-seeding
+            if hist == 3 and accepts:
+                set_rng(name, obj, None)           # the generator re-assigned (setter derives private state again)
+            prng.seed(777)
+            return dig(use(obj, 0))
+        outs = [after_history(h) for h in (1, 2, 3)]
+        cached = len(set(outs)) > 1
+    row["cached"] = cached
+    row["osSites"] = sorted(set(row["osSites"]) | os_all)
+
+
 def measure_spawn(n=2, name="prng.spawn"):
     import pybrops.core.random.prng as prng
     with TR as tr:
@@ -852,6 +1653,7 @@ def warm_up():
 
 
 _WARM = False
+_REACH = None
 
 
 def measure_table():
@@ -859,11 +1661,36 @@ def measure_table():
     if not _WARM:
         warm_up()
         _WARM = True
-    rows = [measure_spawn(), measure_spawn(300, "prng.spawn@large")]
-    with TR as tr:
-        for name in comps():
-            rows.append(measure_component(name, tr))
+    global _REACH
+    reach = Reach()
+    try:
+        reach.install()
+    except Exception:
+        reach.on = False
+    try:
+        reach.begin()
+        rows = [measure_spawn()]
+        reach.end("prng.spawn")
+        rows.append(measure_spawn(300, "prng.spawn@large"))
+        with TR as tr:
+            for name in comps():
+                restore_shared()
+                reach.begin()
+                row = measure_component(name, tr)
+                if name in OBJ:
+                    measure_object(name, tr, row)
+                reach.end(name)
+                rows.append(row)
+    finally:
+        reach.uninstall()
+    _REACH = reach
+    restore_shared()
     return rows
+
+
+def known_cached():
+    return sorted({f["match"].get("component") for f in findings.load("C08")
+                   if f["match"].get("cond") == "cached_private_state" and f["match"].get("component")})
 
 
 def known_sites():
@@ -897,25 +1724,35 @@ def render_table(rows, os_k, leak_k):
     out = ["/- GENERATED by harness/props/c08.py (pre_build) from measurements on the working tree of /repo.",
            "   Do not edit: every `./check C08` run rewrites this file when the measurement changes.",
            "   Row = component, has-rng-parameter, streams touched with rng=None ⟨own, py, np, os⟩, streams touched",
-           "   with an explicit generator, OS-entropy call sites, global-stream leak sites with an explicit generator.",
+           "   with an explicit generator, OS-entropy call sites, global-stream leak sites with an explicit generator;",
+           "   for classes of long-lived objects: streams touched by the constructor (both modes) and `cached` (a method",
+           "   call after seed(s) depends on private state acquired before the re-seeding).",
            "   knownOsSites / knownLeakSites come from the `finding:` lines of KNOWN_FINDINGS.txt. -/",
            "import PybropsModel.Model.Prng", "", "namespace C08Deps", "open Prng", "", "def table : List Row := ["]
     lines = []
     for r in rows:
+        extra = ""
+        if "ctorGlob" in r:
+            extra = (f", ctorGlob := {_lean_obs(r['ctorGlob'])}, ctorExpl := {_lean_obs(r['ctorExpl'])}, "
+                     f"cached := {'true' if r['cached'] else 'false'}")
         lines.append(f"  {{ name := {_lean_str(r['name'])}, accepts := {'true' if r['accepts'] else 'false'}, "
                      f"glob := {_lean_obs(r['glob'])}, expl := {_lean_obs(r['expl'])}, "
-                     f"osSites := {_lean_list(r['osSites'])}, leakSites := {_lean_list(r['leakSites'])} }}")
+                     f"osSites := {_lean_list(r['osSites'])}, leakSites := {_lean_list(r['leakSites'])}{extra} }}")
     out.append(",\n".join(lines))
     out += ["]", "", f"def knownOsSites : List String := {_lean_list(os_k)}",
-            f"def knownLeakSites : List String := {_lean_list(leak_k)}", "", "end C08Deps", ""]
+            f"def knownLeakSites : List String := {_lean_list(leak_k)}",
+            f"def knownCached : List String := {_lean_list(known_cached())}", "", "end C08Deps", ""]
     return "\n".join(out)
 
 
-def row_deps(r):
+def row_deps(r, ctor=False):
+    ek, gk = ("ctorExpl", "ctorGlob") if ctor else ("expl", "glob")
+    if ctor and gk not in r:
+        return {"rng": False, "py": False, "np": False, "os": False}
     if r["accepts"]:
-        e = r["expl"]
+        e = r[ek]
         return {"rng": e["own"], "py": e["py"], "np": e["np"], "os": e["os"]}
-    g = r["glob"]
+    g = r[gk]
     return {"rng": False, "py": g["py"], "np": g["np"], "os": g["os"]}
 
 
@@ -950,20 +1787,25 @@ def run_pre(ops):
             raise ValueError(op)
 
 
-def exec_program(case, which, tr):
+class Env:
+    """what survives from one execution to the next when a case says `share`: the long-lived objects"""
+    def __init__(self):
+        self.objs = []          # [(name, object)]
+
+
+def exec_ops(ops, tr, ext, spawned, env):
+    """run a list of program operations; returns (step records, spawned list)"""
     import pybrops.core.random.prng as prng
-    run_pre(case["pre_" + which])
-    ext = [make_gen(s) for s in case.get("ext", [])]
-    spawned = []
     steps = []
-    start = {"py": py_state(), "np": np_state()}
-    for op in case["prog"]:
+    for op in ops:
         p0, n0 = py_state(), np_state()
         g0 = [gen_state(g) for g in ext] + [gen_state(g) for g in spawned]
         rec = {"py0": p0, "np0": n0}
         clone = rng = None
-        if "c" in op and op["rng"] != "glob":
-            rng = ext[op["rng"][1]] if op["rng"][0] == "ext" else spawned[op["rng"][1]]
+        a = op.get("rng", "glob")
+        if a != "glob":
+            rng = ext[a[1]] if a[0] == "ext" else spawned[a[1]]
+        if "c" in op and rng is not None:
             clone = copy.deepcopy(rng)      # (unpickling a RandomState acquires OS entropy: keep it out of the window)
         tr.begin()
         if "seed" in op:
@@ -974,6 +1816,17 @@ def exec_program(case, which, tr):
             new = prng.spawn(op["spawn"])
             out = dig([gen_state(g) for g in new])
             spawned = spawned + list(new)
+        elif "new" in op:
+            obj, first = OBJ[op["new"]][0](rng, op.get("v", 0))
+            env.objs.append((op["new"], obj))
+            out = dig(first)
+        elif "use" in op:
+            name, obj = env.objs[op["use"]]
+            out = dig(OBJ[name][1](obj, op.get("v", 0)))
+        elif "setrng" in op:
+            name, obj = env.objs[op["setrng"]]
+            set_rng(name, obj, rng)
+            out = dig(None)
         else:
             out = dig(comps()[op["c"]][1](rng, op.get("v", 0)))
         os_s, npfn_s = tr.end()
@@ -993,8 +1846,27 @@ def exec_program(case, which, tr):
             # an explicit generator was supplied and a global stream / the OS was used: find out who did it
             c = clone
             rec["leak_sites"] = attribute_leak(op["c"], op.get("v", 0), lambda: copy.deepcopy(c)) or ["unattributed:" + op["c"]]
+        elif "use" in op and (p1 != p0 or n1 != n0 or os_s) and getattr(obj, "rng", None) is not _RAND:
+            rec["leak_sites"] = attribute_obj_leak(name, obj, op.get("v", 0)) or ["unattributed:" + name]
+        elif "new" in op and rng is not None and (p1 != p0 or n1 != n0 or os_s):
+            rec["leak_sites"] = sorted(set(npfn_s) | set(os_s)) or ["unattributed:" + op["new"]]
         steps.append(rec)
-    return {"start": start, "steps": steps}
+    return steps, spawned
+
+
+def exec_program(case, which, tr, env=None):
+    """one execution: prior history, (set-up: build / use long-lived objects), program.
+    `env` given = continue with the objects of an earlier execution (the set-up is not repeated)."""
+    run_pre(case["pre_" + which])
+    ext = [make_gen(s) for s in case.get("ext", [])]
+    start = {"py": py_state(), "np": np_state()}
+    setup_steps = []
+    spawned = []
+    if env is None:
+        env = Env()
+        setup_steps, spawned = exec_ops(case.get("setup", []), tr, ext, spawned, env)
+    steps, spawned = exec_ops(case["prog"], tr, ext, spawned, env)
+    return {"start": start, "setup": setup_steps, "steps": steps}, env
 
 
 # ------------------------------------------------------------------------------------------------
@@ -1003,26 +1875,42 @@ def exec_program(case, which, tr):
 class C08(Prop):
     PID = "C08"
     MODULE = "PybropsModel.Props.C08"
-    N_QUICK = 300
-    N_THOROUGH = 3000
+    N_QUICK = 200
+    N_THOROUGH = 1200
     CORRESPONDENCE = "relational"
-    RULE = ("programs of 1-8 stochastic API calls (7 mating protocols, phenotyping, 4 samplers, 5 sampled selection "
-            "configurations, 12 optimisers, apply_jitter, EMBV matrix, an EBV select(), spawn, mid-program seed) with "
-            "rng=None / a spawned generator / a caller generator (PCG64, MT19937 Generator or RandomState), executed "
-            "twice in-process after two different random prior histories (draws, foreign seeds, component calls, "
-            "OS-seeded generators, cached gaussians); kind `repro` re-seeds with the same seed, kind `isolated` does "
-            "not seed and only hands over caller generators.  Non-trivial = the two executions start from different "
-            "python AND numpy global states and the program makes >= 2 stochastic calls (repro) / >= 1 (isolated)")
+    RULE = ("programs of 1-8 stochastic API operations over 46 small components (7 mating protocols, phenotyping, 4 "
+            "samplers, 8 sampled selection configurations, 13 pymoo optimisers, 3 DEAP-based legacy optimisers, hill climber, "
+            "apply_jitter, EMBV matrix, two select(), all prng wrappers, seed, spawn options, the second copy of meiosis in "
+            "core/util/mate.py) in six argument variants each (per-item arrays, ties, zero weights, one complete tiling set, "
+            "nself 0-2, non-PSD / PSD-but-for-rounding / unfixable matrices, Fortran order, ...) and 34 size-gated `@large` "
+            "variants; calls are made with rng=None / a spawned generator / a caller generator (PCG64, MT19937 Generator or "
+            "RandomState), on components built afresh AND on long-lived objects (new / use / setrng) built in a set-up before "
+            "the re-seeding; every program is executed twice in-process after two different random prior histories (draws, "
+            "foreign seeds, component calls, OS-seeded generators, cached gaussians) - with `share` the second execution "
+            "continues with the objects of the first (one object: seed, use, ..., seed, use); input arrays are long-lived and "
+            "handed to every call; kind `repro` re-seeds with the same seed, kind `isolated` does not seed and only hands over "
+            "caller generators; kind `prim` runs seed()/spawn() against their literal Lean model.  Non-trivial = the two "
+            "executions start from different python AND numpy global states and the program makes >= 2 stochastic calls "
+            "(repro) / >= 1 (isolated)")
     TRUSTED = ["the dependency table is measured (state snapshots of random / numpy.random / the generator handed in, "
-               "interception of os.urandom and numpy.random.<fn>, perturbation runs) on the explored calls only",
+               "interception of os.urandom / os.getpid / numpy.random.<fn> / random.<fn>, perturbation runs, objects built "
+               "after three different histories) on the explored calls only",
+               "the static table is an AST scan (aliases of numpy / numpy.random / random / os / time / datetime / secrets / "
+               "uuid and `from` imports are followed; getattr-style dynamic access is not) plus sys.monitoring function "
+               "reach during the measurement",
                "sha1 digests of canonical bytes stand for bit-identity of results and generator states",
                "hash randomisation, thread scheduling, BLAS non-determinism are outside the model"]
-    ASSUMPTIONS = ["components are constructed afresh for every call (protocol counters are not part of the property)",
+    ASSUMPTIONS = ["progeny names / family numbers of mating protocols come from per-object counters and are not part of the "
+                   "property: long-lived mating objects are compared on genotypes and family structure",
                    "seed(None) (seeding from the OS) is out of scope: the property quantifies over given seeds",
-                   "a program names caller generators by construction seed and spawned generators by index since the last seed()"]
+                   "a program names caller generators by construction seed, spawned generators by index since the last "
+                   "seed(), objects by construction order; an object holding a spawned generator is not used after a later seed()",
+                   "in-place samplers (axis_shuffle, outcross_shuffle, apply_jitter) get a fresh copy of their operand; every "
+                   "other input array is one long-lived object shared by all calls of a case"]
 
     def __init__(self):
         self._table = None
+        self._static = None
         self._measure_s = None
 
     # ------------------------------------------------------------------ regenerated Lean
@@ -1042,8 +1930,24 @@ class C08(Prop):
             with bridge.Lock():
                 with open(GEN_FILE, "w") as f:
                     f.write(text)
+        try:
+            self._static = static_table(rows, _REACH)
+            stext = render_static(self._static, static_allow())
+        except Exception as e:
+            import traceback
+            return False, f"static scan failed: {type(e).__name__}: {e} {traceback.format_exc()[-600:]}"
+        old = open(STATIC_FILE).read() if os.path.exists(STATIC_FILE) else None
+        if old != stext:
+            with bridge.Lock():
+                with open(STATIC_FILE, "w") as f:
+                    f.write(stext)
         self._measure_s = round(time.time() - t0, 2)
         return True, ""
+
+    def static_sites(self):
+        if getattr(self, "_static", None) is None:
+            self._static = static_table(self.table(), _REACH)
+        return self._static
 
     def table(self):
         if self._table is None:
@@ -1052,43 +1956,119 @@ class C08(Prop):
 
     # ------------------------------------------------------------------ cases
     def _valid(self, case):
+        """well-formed: generators and objects exist when they are named; an object that holds a spawned
+        generator is not used after a later seed(); with `share` the program builds no object and hands over
+        no caller generator (the second execution continues with the objects of the first)"""
         nsp = 0
-        for op in case["prog"]:
-            if "seed" in op:
-                nsp = 0
-            elif "spawn" in op:
-                nsp += op["spawn"]
-            else:
-                if op["c"] not in comps():
-                    return False
-                a = op["rng"]
+        objs = []           # [name, handle, alive]
+        share = bool(case.get("share"))
+        if share and case.get("ext"):
+            return False
+        for part in ("setup", "prog"):
+            for op in case.get(part, []):
+                a = op.get("rng", "glob")
+                if "seed" in op:
+                    nsp = 0
+                    for o in objs:
+                        if o[1] != "glob" and o[1][0] == "spawned":
+                            o[2] = False
+                    continue
+                if "spawn" in op:
+                    nsp += op["spawn"]
+                    continue
                 if a != "glob":
-                    if not comps()[op["c"]][0]:
-                        return False
                     if a[0] == "ext" and a[1] >= len(case.get("ext", [])):
                         return False
-                    if a[0] == "spawned" and a[1] >= nsp:
+                    if a[0] == "spawned" and (a[1] >= nsp or part == "setup" or share):
                         return False
+                if "c" in op:
+                    if op["c"] not in comps() or (a != "glob" and not comps()[op["c"]][0]):
+                        return False
+                elif "new" in op:
+                    if not has_obj(op["new"]) or (a != "glob" and not comps()[op["new"]][0]):
+                        return False
+                    if share and part == "prog":
+                        return False
+                    objs.append([op["new"], a, True])
+                elif "use" in op:
+                    k = op["use"]
+                    if k >= len(objs) or objs[k][0] != op["cls"] or not objs[k][2]:
+                        return False
+                elif "setrng" in op:
+                    k = op["setrng"]
+                    if k >= len(objs) or objs[k][0] != op["cls"] or not comps()[op["cls"]][0]:
+                        return False
+                    objs[k][1], objs[k][2] = a, True
+                else:
+                    return False
         return True
 
     def corpus(self):
-        out = [{"kind": "table"}]
+        out = [{"kind": "table"}, {"kind": "static"},
+               {"kind": "prim", "start": 5, "ops": [{"seed": 0}, {"spawn": 3}, {"spawn": 0}, {"spawn": 2}, {"seed": 2 ** 32 + 5},
+                                                    {"spawn": 1}, {"seed": 12345}, {"seed": 2 ** 63 + 11}, {"spawn": 4}]},
+               {"kind": "prim", "start": 9, "ops": [{"spawn": 2}, {"seed": 1}, {"spawn": 70}]}]
         pre_a = [["seed", 1], ["py", 3], ["np", 5]]
         pre_b = [["npseed", 99], ["normal", 3], ["py", 1], ["osgen", 1]]
         names = list(comps())
         # every component once with rng=None after a re-seed (this is also the replay of a failing
         # `table_unseeded_known` obligation: run the offending component twice)
         for i, n in enumerate(names):
+            vs = (0, 1) if is_large(n) else (i % 6, (i + 3) % 6)
             out.append({"kind": "repro", "pre_a": pre_a, "pre_b": pre_b, "ext": [],
-                        "prog": [{"seed": 12345}, {"c": n, "rng": "glob", "v": 0}, {"c": n, "rng": "glob", "v": 1}]})
+                        "prog": [{"seed": 12345}, {"c": n, "rng": "glob", "v": vs[0]}, {"c": n, "rng": "glob", "v": vs[1]}]})
         out.append({"kind": "repro", "pre_a": pre_a, "pre_b": [["spawn", 2]], "ext": [],
                     "prog": [{"seed": 4}, {"spawn": 300}, {"c": "samp.tiled_choice", "rng": ["spawned", 299], "v": 0}]})
         # every component that has an rng parameter once with a caller generator and no seeding
         for i, n in enumerate(names):
             if comps()[n][0]:
-                prog = [{"c": n, "rng": ["ext", 0], "v": 0}, {"c": n, "rng": ["ext", 0], "v": 1}]
+                kinds = ["pcg", "mt", "rs"]
+                if is_large(n) or n.startswith("opt."):
+                    ext = [[kinds[i % 3], 7 + i]]
+                    prog = [{"c": n, "rng": ["ext", 0], "v": 1}] if is_large(n) else \
+                        [{"c": n, "rng": ["ext", 0], "v": 0}, {"c": n, "rng": ["ext", 0], "v": 1}]
+                else:       # a Generator on PCG64, a Generator on MT19937 and a legacy RandomState
+                    ext = [[k, 7 + i + j] for j, k in enumerate(kinds)]
+                    prog = [{"c": n, "rng": ["ext", j], "v": (i + j) % 6} for j in range(3)]
                 out.append({"kind": "isolated", "pre_a": [["seed", 5], ["np", 2]], "pre_b": [["seed", 6], ["py", 4]],
-                            "ext": [[["pcg", "mt", "rs"][i % 3], 7 + i]], "prog": prog[1:] if is_large(n) else prog})
+                            "ext": ext, "prog": prog})
+        # the argument forms of the cheap components, all six variants, same input arrays in every call
+        for n in ("samp.tiled_choice", "samp.stochastic_universal_sampling", "cfg.SubsetSelectionConfiguration",
+                  "mate.TwoWayCross", "pt.G_E_Phenotyping", "cmat.apply_jitter"):
+            out.append({"kind": "repro", "pre_a": pre_a, "pre_b": pre_b, "ext": [],
+                        "prog": [{"seed": 77}] + [{"c": n, "rng": "glob", "v": v} for v in range(6)]})
+            if comps()[n][0]:
+                out.append({"kind": "isolated", "pre_a": [["seed", 5]], "pre_b": [["seed", 6], ["np", 3]], "ext": [["pcg", 5]],
+                            "prog": [{"c": n, "rng": ["ext", 0], "v": v} for v in range(6)]})
+        # long-lived objects: every class, (a) one object used, re-seeded and used again in ONE process after
+        # other activity (`share`), (b) two objects built after different prior activity and used a different
+        # number of times, then both run after seed(s); (c) the generator re-assigned before the re-seeding
+        onames = list(OBJ)
+        for g0 in range(0, len(onames), 3):
+            grp = onames[g0:g0 + 3]
+            v = (g0 // 3) % 3
+            news = [{"new": n, "rng": "glob", "v": v} for n in grp]
+            uses = [{"use": k, "cls": n, "v": v} for k, n in enumerate(grp)]
+            out.append({"kind": "repro", "share": True, "pre_a": pre_a, "pre_b": [["np", 2], ["call", "samp.tiled_choice", 1]],
+                        "ext": [], "setup": news, "prog": [{"seed": 31}] + uses + uses})
+            setup = news + uses[:2]
+            for k, n in enumerate(grp):
+                if comps()[n][0] and (g0 + k) % 2:
+                    setup.append({"setrng": k, "cls": n, "rng": "glob"})
+            out.append({"kind": "repro", "pre_a": [["seed", 8]], "pre_b": [["seed", 9], ["np", 4], ["normal", 1]], "ext": [],
+                        "setup": setup, "prog": [{"seed": 32}] + uses})
+            accg = [n for n in grp if comps()[n][0]]
+            if accg:    # objects that hold the caller's generators: isolation of constructor and method
+                out.append({"kind": "isolated", "pre_a": [["seed", 5], ["np", 2]], "pre_b": [["seed", 6], ["py", 4]],
+                            "ext": [[["pcg", "mt", "rs"][(g0 + k) % 3], 70 + g0 + k] for k in range(len(accg))],
+                            "setup": [{"new": n, "rng": ["ext", k], "v": v} for k, n in enumerate(accg)],
+                            "prog": [{"use": k, "cls": n, "v": (v + j) % 3} for j in (0, 1) for k, n in enumerate(accg)]})
+        # an object built on a spawned generator inside the program; generator re-assigned inside the program
+        out.append({"kind": "repro", "pre_a": pre_a, "pre_b": pre_b, "ext": [],
+                    "setup": [{"new": "mate.TwoWayCross", "rng": "glob", "v": 0}],
+                    "prog": [{"seed": 5}, {"spawn": 2}, {"new": "pt.G_E_Phenotyping", "rng": ["spawned", 1], "v": 0},
+                             {"use": 1, "cls": "pt.G_E_Phenotyping", "v": 0}, {"setrng": 0, "cls": "mate.TwoWayCross", "rng": ["spawned", 0]},
+                             {"use": 0, "cls": "mate.TwoWayCross", "v": 4}, {"use": 1, "cls": "pt.G_E_Phenotyping", "v": 3}]})
         # spawn: streams, splitting, use of spawned streams, mid-program re-seed
         out.append({"kind": "repro", "pre_a": [], "pre_b": [["py", 7], ["spawn", 3]], "ext": [],
                     "prog": [{"seed": 0}, {"spawn": 0}, {"spawn": 3}, {"c": "mate.TwoWayCross", "rng": ["spawned", 2], "v": 0},
@@ -1102,6 +2082,9 @@ class C08(Prop):
                     "prog": [{"seed": 12345}, {"c": "opt.SubsetGeneticAlgorithm", "rng": "glob", "v": 0}]})
         out.append({"kind": "isolated", "pre_a": [["seed", 3]], "pre_b": [["seed", 4]], "ext": [["pcg", 1]],
                     "prog": [{"c": "opt.SubsetGeneticAlgorithm", "rng": ["ext", 0], "v": 0}]})
+        # D11c: the DEAP-based legacy set GA samples its tournaments from python's `random`
+        out.append({"kind": "isolated", "pre_a": [["seed", 3]], "pre_b": [["seed", 4]], "ext": [["pcg", 1]],
+                    "prog": [{"c": "opt.UnconstrainedSetGeneticAlgorithm", "rng": ["ext", 0], "v": 0}]})
         return out
 
     def exhaustive(self, tier):
@@ -1110,7 +2093,7 @@ class C08(Prop):
             return None
         out = []
         for n, (accepts, _f, _w) in comps().items():
-            for v in (0, 1, 2):
+            for v in (0, 1, 2) if is_large(n) else range(6):
                 out.append({"kind": "repro", "pre_a": [["np", 1]], "pre_b": [["pyseed", 4], ["normal", 1]], "ext": [],
                             "prog": [{"seed": 7 + v}, {"c": n, "rng": "glob", "v": v}]})
             if accepts:
@@ -1120,6 +2103,12 @@ class C08(Prop):
                     out.append({"kind": "repro", "pre_a": [["seed", 1]], "pre_b": [["osgen", 1]], "ext": [[k, 98]],
                                 "prog": [{"seed": 3}, {"spawn": 2}, {"c": n, "rng": ["spawned", 1], "v": 2},
                                          {"c": n, "rng": ["ext", 0], "v": 0}]})
+        for n in OBJ:
+            for v in range(0, 6, 2):
+                for share in (True, False):
+                    out.append({"kind": "repro", "share": share, "pre_a": [["np", 1]], "pre_b": [["pyseed", 4], ["normal", 1]],
+                                "ext": [], "setup": [{"new": n, "rng": "glob", "v": v}] + [{"use": 0, "cls": n, "v": v}] * (v % 3),
+                                "prog": [{"seed": 7 + v}, {"use": 0, "cls": n, "v": v}, {"use": 0, "cls": n, "v": (v + 1) % 6}]})
         return out
 
     def _pre(self, rng):
@@ -1144,55 +2133,104 @@ class C08(Prop):
                 ops.append(["spawn", rng.randint(1, 3)])
             else:
                 cheap = [n for n in comps() if not n.startswith("opt.") and not n.startswith("sel.") and not is_large(n)]
-                ops.append(["call", rng.choice(cheap), rng.randint(0, 2)])
+                ops.append(["call", rng.choice(cheap), rng.randint(0, 5)])
         return ops
+
+    def _v(self, rng, name):
+        return rng.randint(0, 2) if is_large(name) else rng.randint(0, 5)
 
     def generate(self, rng, n, tier):
         names = list(comps())
         weights = [comps()[x][2] for x in names]
         acc = [x for x in names if comps()[x][0]]
         acc_w = [comps()[x][2] for x in acc]
+        onames = list(OBJ)
+        oweights = [comps()[x][2] for x in onames]
+        oacc = [x for x in onames if comps()[x][0]]
+        oacc_w = [comps()[x][2] for x in oacc]
         out = []
         for _ in range(n):
+            if rng.random() < 0.03:
+                out.append({"kind": "prim", "start": rng.randint(0, 99),
+                            "ops": [({"seed": rng.choice([0, 1, 2 ** 32, rng.randint(0, 2 ** 63)])} if rng.random() < 0.4
+                                     else {"spawn": rng.randint(0, 5)}) for _k in range(rng.randint(2, 6))]})
+                continue
             kind = "isolated" if rng.random() < 0.3 else "repro"
-            next_ = rng.randint(1, 2) if rng.random() < 0.6 else 0
+            share = kind == "repro" and rng.random() < 0.3
+            with_objs = share or rng.random() < 0.45
+            next_ = 0 if share else (rng.randint(1, 2) if rng.random() < 0.6 else 0)
             ext = [[rng.choice(["pcg", "mt", "rs"]), rng.randint(0, 2 ** 31)] for _ in range(next_)]
+            if kind == "isolated" and not ext:
+                ext = [[rng.choice(["pcg", "mt", "rs"]), rng.randint(0, 2 ** 31)]]
+            # ---- set-up: long-lived objects built (and used, re-assigned) before the re-seeding
+            setup, objs = [], []                 # objs: [name, handle]
+            if with_objs:
+                for _k in range(rng.randint(1, 3)):
+                    if kind == "isolated":
+                        nm = rng.choices(oacc, oacc_w)[0]
+                        a = ["ext", rng.randrange(len(ext))]
+                    else:
+                        nm = rng.choices(onames, oweights)[0]
+                        a = ["ext", rng.randrange(len(ext))] if (ext and comps()[nm][0] and rng.random() < 0.3) else "glob"
+                    setup.append({"new": nm, "rng": a, "v": self._v(rng, nm)})
+                    objs.append([nm, a])
+                for _k in range(rng.randint(0, 3)):
+                    k = rng.randrange(len(objs))
+                    if kind == "repro" and comps()[objs[k][0]][0] and rng.random() < 0.2:
+                        setup.append({"setrng": k, "cls": objs[k][0], "rng": "glob"})
+                        objs[k][1] = "glob"
+                    else:
+                        setup.append({"use": k, "cls": objs[k][0], "v": self._v(rng, objs[k][0])})
             prog = []
             nsp = 0
+
+            def use_op():
+                k = rng.randrange(len(objs))
+                return {"use": k, "cls": objs[k][0], "v": self._v(rng, objs[k][0])}
             if kind == "repro":
                 prog.append({"seed": rng.choice([0, 1, 12345, 2 ** 32 - 1, 2 ** 32, rng.randint(0, 2 ** 63)])})
                 for _ in range(rng.randint(2, 7)):
                     r = rng.random()
-                    if r < 0.15:
+                    if r < 0.12:
                         k = rng.randint(0, 3)
                         prog.append({"spawn": k})
                         nsp += k
-                    elif r < 0.2:
+                    elif r < 0.17:
                         prog.append({"seed": rng.randint(0, 2 ** 34)})
                         nsp = 0
+                    elif objs and r < 0.55:
+                        prog.append(use_op())
+                    elif objs and r < 0.6 and comps()[objs[0][0]][0] and objs[0][1] == "glob":
+                        prog.append({"setrng": 0, "cls": objs[0][0], "rng": "glob"})
                     else:
                         c = rng.choices(names, weights)[0]
                         arg = "glob"
                         if comps()[c][0]:
                             q = rng.random()
-                            if q < 0.3 and nsp:
+                            if q < 0.3 and nsp and not share:
                                 arg = ["spawned", rng.randrange(nsp)]
                             elif q < 0.55 and ext:
                                 arg = ["ext", rng.randrange(len(ext))]
-                        prog.append({"c": c, "rng": arg, "v": rng.randint(0, 2)})
+                        prog.append({"c": c, "rng": arg, "v": self._v(rng, c)})
             else:
-                if not ext:
-                    ext = [[rng.choice(["pcg", "mt", "rs"]), rng.randint(0, 2 ** 31)]]
                 for _ in range(rng.randint(1, 5)):
-                    c = rng.choices(acc, acc_w)[0]
-                    prog.append({"c": c, "rng": ["ext", rng.randrange(len(ext))], "v": rng.randint(0, 2)})
+                    if objs and rng.random() < 0.5:
+                        prog.append(use_op())
+                    else:
+                        c = rng.choices(acc, acc_w)[0]
+                        prog.append({"c": c, "rng": ["ext", rng.randrange(len(ext))], "v": self._v(rng, c)})
             pre_a, pre_b = self._pre(rng), self._pre(rng)
             if kind == "isolated":          # make sure the global streams differ between the executions
                 pre_a.append(["seed", rng.randint(0, 2 ** 30)])
                 pre_b.append(["seed", 2 ** 31 + rng.randint(0, 2 ** 30)])
                 if rng.random() < 0.5:
                     pre_b.append(["np", 1])
-            out.append({"kind": kind, "pre_a": pre_a, "pre_b": pre_b, "ext": ext, "prog": prog})
+            case = {"kind": kind, "pre_a": pre_a, "pre_b": pre_b, "ext": ext, "prog": prog}
+            if setup:
+                case["setup"] = setup
+            if share:
+                case["share"] = True
+            out.append(case)
         return out
 
     # ------------------------------------------------------------------ implementation
@@ -1203,31 +2241,116 @@ class C08(Prop):
             _WARM = True
         if case["kind"] == "table":
             return {"rows": [{"name": r["name"], "accepts": r["accepts"], "deps": row_deps(r), "osSites": r["osSites"],
-                              "leakSites": r["leakSites"]} for r in self.table()]}
+                              "leakSites": r["leakSites"], "ctorDeps": row_deps(r, ctor=True),
+                              "cached": bool(r.get("cached", False))} for r in self.table()]}
+        if case["kind"] == "static":
+            return {"sites": self.static_sites()}
+        if case["kind"] == "prim":
+            return self._run_prim(case)
         if not self._valid(case):
             raise ValueError("ill-formed program (generator/shrinker bug)")
         st_py, st_np = random.getstate(), numpy.random.get_state()
+        restore_shared()
         try:
             with TR as tr:
-                a = exec_program(case, "a", tr)
-                b = exec_program(case, "b", tr)
+                tr.exec_index = 0
+                a, env = exec_program(case, "a", tr)
+                tr.exec_index = 7919
+                try:
+                    b, _env = exec_program(case, "b", tr, env if case.get("share") else None)
+                finally:
+                    tr.exec_index = 0
         finally:
             random.setstate(st_py)
             numpy.random.set_state(st_np)
         return {"A": a, "B": b}
 
+    @staticmethod
+    def _run_prim(case):
+        """seed()/spawn() against their literal Lean model: record the four primitives from the standard library
+        (reference pass), then run the real prng.seed / prng.spawn from the same start"""
+        import pybrops.core.random.prng as prng
+        st_py, st_np = random.getstate(), numpy.random.get_state()
+        try:
+            random.seed(case.get("start", 5))
+            numpy.random.seed(case.get("start", 5) + 1)
+            s0 = (random.getstate(), numpy.random.get_state())
+            py0, np0 = py_state(), np_state()
+            py_seed, py_draw, np_seed, gen_seed = [], [], [], []
+            for op in case["ops"]:
+                if "seed" in op:
+                    random.seed(op["seed"])
+                    p0 = py_state()
+                    v = random.randint(0, 2 ** 32 - 1)
+                    py_seed.append([str(op["seed"]), p0])
+                    py_draw.append([p0, v, py_state()])
+                    numpy.random.seed(v)
+                    np_seed.append([str(v), np_state()])
+                else:
+                    for _ in range(op["spawn"]):
+                        p = py_state()
+                        v = random.randint(0, 2 ** 64 - 1)
+                        py_draw.append([p, v, py_state()])
+                        gen_seed.append([str(v), gen_state(numpy.random.Generator(numpy.random.PCG64(v)))])
+            random.setstate(s0[0])
+            numpy.random.set_state(s0[1])
+            real = []
+            for op in case["ops"]:
+                gens = []
+                if "seed" in op:
+                    prng.seed(op["seed"])
+                else:
+                    gens = [gen_state(g) for g in prng.spawn(op["spawn"])]
+                real.append({"py": py_state(), "np": np_state(), "gens": gens})
+        finally:
+            random.setstate(st_py)
+            numpy.random.set_state(st_np)
+        return {"py": py0, "np": np0, "py_seed": py_seed, "py_draw": py_draw, "np_seed": np_seed, "gen_seed": gen_seed,
+                "real": real}
+
     # ------------------------------------------------------------------ model / Spec requests
+    @staticmethod
+    def _explicit_steps(case, obs):
+        """[(index into setup+prog, A step, B step)] of the operations that hand an explicit generator to a
+        component: calls and constructions with an `rng` argument, method calls on objects that hold one"""
+        setup, prog = case.get("setup", []), case["prog"]
+        handles = []
+        out = []
+        share = bool(case.get("share"))
+        sa = obs["A"]["setup"] + obs["A"]["steps"]
+        sb = ([None] * len(setup) if share else obs["B"]["setup"]) + obs["B"]["steps"]
+        for i, op in enumerate(setup + prog):
+            a = op.get("rng", "glob")
+            explicit = False
+            if "new" in op:
+                handles.append(a)
+                explicit = a != "glob"
+            elif "setrng" in op:
+                handles[op["setrng"]] = a
+            elif "use" in op:
+                explicit = handles[op["use"]] != "glob"
+            elif "c" in op:
+                explicit = a != "glob"
+            if explicit and sb[i] is not None:
+                out.append((i, sa[i], sb[i]))
+        return out
+
     def requests(self, case, obs):
         if case["kind"] == "table":
             return [{"op": "c08.table"}]
-        reqs = [{"op": "c08.predict", "prog": [self._model_op(op) for op in case["prog"]], "n_ext": len(case.get("ext", []))}]
+        if case["kind"] == "static":
+            return [{"op": "c08.static"}]
+        if case["kind"] == "prim":
+            return [{"op": "c08.prim_run", "ops": case["ops"], **{k: obs[k] for k in ("py", "np", "py_seed", "py_draw", "np_seed", "gen_seed")}}]
+        reqs = [{"op": "c08.predict", "setup": [self._model_op(op) for op in case.get("setup", [])],
+                 "prog": [self._model_op(op) for op in case["prog"]], "n_ext": len(case.get("ext", [])),
+                 "share": bool(case.get("share"))}]
         sa, sb = obs["A"]["steps"], obs["B"]["steps"]
         if case["kind"] == "repro":
             reqs.append({"op": "c08.spec_repro", "a": [s["out"] for s in sa], "b": [s["out"] for s in sb]})
-        for op, x, y in zip(case["prog"], sa, sb):
-            if "c" in op and op["rng"] != "glob":
-                iso = lambda s: {"py0": s["py0"], "py1": s["py1"], "np0": s["np0"], "np1": s["np1"], "out": s["out"]}
-                reqs.append({"op": "c08.spec_isolated", "a": iso(x), "b": iso(y), "same_generator": True})
+        iso = lambda s: {"py0": s["py0"], "py1": s["py1"], "np0": s["np0"], "np1": s["np1"], "out": s["out"]}
+        for _i, x, y in self._explicit_steps(case, obs):
+            reqs.append({"op": "c08.spec_isolated", "a": iso(x), "b": iso(y), "same_generator": True})
         return reqs
 
     @staticmethod
@@ -1236,6 +2359,12 @@ class C08(Prop):
             return {"seed": op["seed"]}
         if "spawn" in op:
             return {"spawn": op["spawn"]}
+        if "new" in op:
+            return {"new": op["new"], "rng": op["rng"]}
+        if "use" in op:
+            return {"use": op["use"], "c": op["cls"]}
+        if "setrng" in op:
+            return {"setrng": op["setrng"], "c": op["cls"], "rng": op["rng"]}
         return {"c": op["c"], "rng": op["rng"]}
 
     def judge(self, case, obs, answers):
@@ -1245,13 +2374,33 @@ class C08(Prop):
         if case["kind"] == "table":
             t = answers[0]["ok"]
             mine = obs["rows"]
-            theirs = [{k: r[k] for k in ("name", "accepts", "deps", "osSites", "leakSites")} for r in t["rows"]]
+            keys = ("name", "accepts", "deps", "osSites", "leakSites", "ctorDeps", "cached")
+            theirs = [{k: r[k] for k in keys} for r in t["rows"]]
             corr = mine == theirs
-            bad = [r["name"] for r in t["rows"] if not (r["consistent"] and r["unseeded_known"] and r["leaks_known"])]
+            bad = [r["name"] for r in t["rows"] if not (r["consistent"] and r["unseeded_known"] and r["leaks_known"]
+                                                        and r["cached_known"])]
             return {"corr": corr, "spec": True, "nontrivial": False,
                     "detail": f"compiled table {'==' if corr else '!='} measured table ({len(mine)} rows); rows failing a table obligation: {bad}"}
+        if case["kind"] == "static":
+            t = answers[0]["ok"]
+            mine = [[x["module"], x["func"], x["kind"], x["what"], x["count"], x["reached"]] for x in obs["sites"]]
+            theirs = [[x["module"], x["func"], x["kind"], x["what"], x["count"], x["reached"]] for x in t["sites"]]
+            corr = mine == theirs
+            bad = [f"{x['module']}:{x['func']}:{x['what']}" for x in t["sites"] if not x["covered"]]
+            return {"corr": corr, "spec": True, "nontrivial": False,
+                    "detail": f"compiled static table {'==' if corr else '!='} scanned sites ({len(mine)}); uncovered sites: {bad}"}
+        if case["kind"] == "prim":
+            model = answers[0]["ok"]["steps"]
+            corr = model == obs["real"]
+            first = next((i for i, (a, b) in enumerate(zip(model, obs["real"])) if a != b), None)
+            return {"corr": corr, "spec": True, "nontrivial": len(case["ops"]) >= 2,
+                    "detail": f"literal model of seed()/spawn() on the recorded primitives {'==' if corr else '!='} real prng "
+                              f"({len(model)}/{len(obs['real'])} steps, first difference at {first})"}
         pred = answers[0]["ok"]
-        sa, sb = obs["A"]["steps"], obs["B"]["steps"]
+        share = bool(case.get("share"))
+        nset = len(case.get("setup", []))
+        sa = obs["A"]["setup"] + obs["A"]["steps"]
+        sb = ([None] * nset if share else obs["B"]["setup"]) + obs["B"]["steps"]
         notes = []
         corr = pred["complete"] and len(pred["steps"]) == len(sa) == len(sb)
         if not corr:
@@ -1259,10 +2408,14 @@ class C08(Prop):
         else:
             for i, (p, x, y) in enumerate(zip(pred["steps"], sa, sb)):
                 for t in (x, y):
+                    if t is None:
+                        continue
                     extra = [s for s in t["touched"] if s not in p["touched"]]
                     if extra:
                         corr = False
                         notes.append(f"step {i}: advances {extra}, table says {p['touched']}")
+                if y is None:
+                    continue
                 for flag, key in (("eq_out", "out"), ("eq_py", "py1"), ("eq_np", "np1"), ("eq_gens", "gens")):
                     if p[flag] and x[key] != y[key]:
                         corr = False
@@ -1271,28 +2424,28 @@ class C08(Prop):
         fails = self._spec_failures(case, obs, answers)
         spec = not fails
         starts_differ = obs["A"]["start"]["py"] != obs["B"]["start"]["py"] and obs["A"]["start"]["np"] != obs["B"]["start"]["np"]
-        ncalls = sum(1 for op in case["prog"] if "c" in op or "spawn" in op)
+        ncalls = sum(1 for op in case["prog"] if "c" in op or "spawn" in op or "use" in op or "new" in op)
         nontriv = starts_differ and ncalls >= (2 if case["kind"] == "repro" else 1)
         return {"corr": corr, "spec": spec, "nontrivial": nontriv, "fails": fails,
-                "detail": f"{case['kind']} spec_failures={fails[:3]} correspondence={notes[:3]}"}
+                "detail": f"{case['kind']}{' share' if share else ''} spec_failures={fails[:3]} correspondence={notes[:3]}"}
 
     def _spec_failures(self, case, obs, answers):
-        """[(step, clause, detail)] — clause 'isolated' (explicit generator: globals touched / result not a
-        function of the generator) or 'repro' (outputs of the two executions differ)"""
+        """[(step index into setup+prog, clause, detail)] — clause 'isolated' (explicit generator: globals touched /
+        result not a function of the generator) or 'repro' (outputs of the two executions differ)"""
         fails = []
         k = 1
+        nset = len(case.get("setup", []))
         first_diff = None
         if case["kind"] == "repro":
             r = answers[k]["ok"]
             k += 1
             if not r["ok"]:
-                first_diff = r["first_diff"] if r["first_diff"] is not None else 0
-        for i, op in enumerate(case["prog"]):
-            if "c" in op and op["rng"] != "glob":
-                r = answers[k]["ok"]
-                k += 1
-                if not r["ok"]:
-                    fails.append([i, "isolated", r["detail"]])
+                first_diff = nset + (r["first_diff"] if r["first_diff"] is not None else 0)
+        for i, _x, _y in self._explicit_steps(case, obs):
+            r = answers[k]["ok"]
+            k += 1
+            if not r["ok"]:
+                fails.append([i, "isolated", r["detail"]])
         if first_diff is not None:
             fails.append([first_diff, "repro", "outputs differ after re-seeding"])
         fails.sort(key=lambda f: (f[0], 0 if f[1] == "isolated" else 1))
@@ -1305,15 +2458,19 @@ class C08(Prop):
         if not fails or not isinstance(obs, dict) or "A" not in obs:
             return sig
         i, clause, _ = fails[0]
-        op = case["prog"][i]
-        sig["component"] = op.get("c", "spawn" if "spawn" in op else "seed")
-        steps = [obs["A"]["steps"], obs["B"]["steps"]]
+        ops = case.get("setup", []) + case["prog"]
+        op = ops[i]
+        sig["component"] = op.get("c") or op.get("cls") or op.get("new") or ("spawn" if "spawn" in op else "seed")
+        nset = len(case.get("setup", []))
+        share = bool(case.get("share"))
+        steps = [obs["A"]["setup"] + obs["A"]["steps"],
+                 ([{}] * nset if share else obs["B"]["setup"]) + obs["B"]["steps"]]
         if clause == "isolated":
             sites = set()
             for st in steps:
                 sites |= set(st[i].get("leak_sites", []))
                 sites |= set(st[i].get("os_sites", []))
-            touched = any(st[i]["py0"] != st[i]["py1"] or st[i]["np0"] != st[i]["np1"] for st in steps)
+            touched = any(st[i] and (st[i]["py0"] != st[i]["py1"] or st[i]["np0"] != st[i]["np1"]) for st in steps)
             sig["cond"] = "explicit_rng_not_isolated"
             sig["via"] = "+".join(sorted(sites)) if sites else ("unattributed" if touched else "result_depends_on_global_state")
         else:
@@ -1340,6 +2497,32 @@ class C08(Prop):
                 c["prog"] = prog[:i] + prog[i + 1:]
                 if self._valid(c):
                     yield c
+        setup = case.get("setup", [])
+        for i in range(len(setup)):
+            c = dict(case)
+            if "new" in setup[i]:
+                # drop the object together with every operation on it; renumber the others
+                k = sum(1 for op in setup[:i] if "new" in op)
+
+                def ren(ops):
+                    out = []
+                    for op in ops:
+                        key = "use" if "use" in op else ("setrng" if "setrng" in op else None)
+                        if key is None:
+                            out.append(op)
+                        elif op[key] != k:
+                            out.append(dict(op, **{key: op[key] - (1 if op[key] > k else 0)}))
+                    return out
+                if any("new" in op for op in prog):
+                    continue
+                c["setup"] = ren(setup[:i] + setup[i + 1:])
+                c["prog"] = ren(prog)
+                if len(c["prog"]) < (2 if case["kind"] == "repro" else 1):
+                    continue
+            else:
+                c["setup"] = setup[:i] + setup[i + 1:]
+            if self._valid(c):
+                yield c
         for key in ("pre_a", "pre_b"):
             for i in range(len(case[key])):
                 if case["kind"] == "isolated" and case[key][i][0] == "seed" and i == len(case[key]) - 1:
@@ -1458,6 +2641,138 @@ class C08(Prop):
             finally:
                 self._rng = old
 
+        # ---- round 3: long-lived objects, aliasing of inputs, secondary entry points, rare options ----------
+        import pybrops.breed.prot.mate.TwoWayCross as twc
+        import pybrops.core.util.mate as umate
+        import pybrops.popgen.cmat.DenseCoancestryMatrix as dcm
+        import pybrops.opt.algo.UnconstrainedSteepestAscentSetHillClimber as uhc
+        import pybrops.opt.algo.SubsetGeneticAlgorithm as sga
+
+        def _derive(value):
+            seed = int(value.randint(0, 2 ** 31 - 1)) if isinstance(value, numpy.random.RandomState) else int(value.integers(0, 2 ** 31 - 1))
+            return numpy.random.default_rng(seed)
+
+        def derived_rng_property(cls):
+            """class (1): the `rng` setter derives ONE private generator when the generator is assigned and the
+            object draws from that one ever after (C08-b3 on another component)"""
+            orig = cls.rng
+
+            def fset(self, value):
+                orig.fset(self, value)
+                self._c08_derived = _derive(self._rng)
+
+            return property(lambda self: self._c08_derived, fset)
+
+        orig_sga_min = sga.SubsetGeneticAlgorithm.minimize
+
+        def ga_stream_per_object(self, prob, miscout=None, **kw):       # class (1): one stream per optimiser object
+            if not hasattr(self, "_c08_stream"):
+                self._c08_stream = numpy.random.default_rng(20240229)
+            old = self._rng
+            self._rng = self._c08_stream
+            try:
+                return orig_sga_min(self, prob, miscout, **kw)
+            finally:
+                self._rng = old
+
+        def tiled_permutes_options(a, size=None, replace=True, p=None, rng=None):    # class (1): aliasing (C08-c3)
+            out = orig_tiled(a, size, replace, p, rng)
+            if not replace and numpy.prod(size) == len(a):
+                a[:] = out.ravel()
+            return out
+
+        def hillclimber_memo(self, prob, miscout=None, **kw):            # class (1): memo primed by the first call
+            memo = self.__dict__.setdefault("_c08_memo", {})
+            if id(prob) not in memo:
+                memo[id(prob)] = orig_min(self, prob, miscout, **kw)
+            return memo[id(prob)]
+
+        import functools
+
+        @functools.lru_cache(maxsize=None)
+        def _exchix(n):
+            return numpy.array([[i, j] for i in range(n) for j in range(i + 1, n)])
+
+        def outcross_cached_indices(xconfig, rng=None):                  # module-level memo shuffled in place (C08-a3)
+            if rng is None:
+                rng = prng.global_prng
+
+            def objfn(x):
+                return sum(int(numpy.sum(numpy.unique(r, return_counts=True)[1] - 1)) for r in x)
+            xr = xconfig.flat
+            best = objfn(xconfig)
+            exchix = _exchix(len(xr))
+            it = True
+            while it:
+                rng.shuffle(exchix)
+                local = True
+                for i, j in exchix:
+                    xr[i], xr[j] = xr[j], xr[i]
+                    sc = objfn(xconfig)
+                    if sc < best:
+                        best = sc
+                        local = False
+                        break
+                    xr[i], xr[j] = xr[j], xr[i]
+                it = not local
+
+        private_uniform = numpy.random.RandomState(99).uniform          # class (5): a wrapper bound to another generator
+
+        orig_uopt = uhc.UnconstrainedSteepestAscentSetHillClimber.optimize
+
+        def uncon_hc_python_random(self, objfn, k, sspace, objfn_wt, **kw):   # class (5): legacy entry point
+            if py_random.random() < 2.0:
+                return orig_uopt(self, objfn, k, sspace, objfn_wt, **kw)
+
+        orig_jit = dcm.DenseCoancestryMatrix.apply_jitter
+
+        def jitter_os_when_nearly_psd(self, eigvaltol=2e-14, minjitter=1e-10, maxjitter=1e-6, nattempt=100):
+            # class (2): only the rounding-noise branch (eigenvalue ~ -1e-17) builds its own generator
+            if numpy.min(numpy.linalg.eigvals(self._mat).real) > -1e-8:
+                with patch(numpy.random, "uniform", numpy.random.default_rng().uniform):
+                    return orig_jit(self, eigvaltol, minjitter, maxjitter, nattempt)
+            return orig_jit(self, eigvaltol, minjitter, maxjitter, nattempt)
+
+        def pheno_global_for_unequal_error_variances(self, pgmat, miscout=None, **kw):   # class (4): per-trait arrays
+            ve = numpy.asarray(self.var_err)
+            if ve.ndim == 1 and len(set(ve.tolist())) > 1 and self._rng is not prng.global_prng:
+                old = self._rng
+                self._rng = prng.global_prng
+                try:
+                    return orig_pheno(self, pgmat, miscout, **kw)
+                finally:
+                    self._rng = old
+            return orig_pheno(self, pgmat, miscout, **kw)
+
+        orig_dm = umate.dense_meiosis
+
+        def dense_meiosis_global(geno, sel, xoprob, rng):               # class (5): the second copy of meiosis
+            return orig_dm(geno, sel, xoprob, prng.global_prng)
+
+        def seed_keeps_cached_gaussian(s=None):                          # mechanism 1 (C08-a1)
+            py_random.seed(s)
+            numpy.random.get_bit_generator().state = numpy.random.MT19937(py_random.getrandbits(128)).state
+
+        def seed_zero_from_os(s=None):                                   # mechanism 1 (C08-c2)
+            py_random.seed(int(s) if s else None)
+            numpy.random.seed(py_random.randint(0, 2 ** 32 - 1))
+
+        def spawn_reversed(n=None, BitGenerator=numpy.random.PCG64, sbits=64):     # harmless for the property, not the model
+            out = orig_spawn(n, BitGenerator, sbits)
+            return out[::-1] if isinstance(out, list) else out
+
+        def seed_numpy_from_second_draw(s=None):                         # reproducible, but not the modelled seed()
+            py_random.seed(s)
+            py_random.randint(0, 2 ** 32 - 1)
+            numpy.random.seed(py_random.randint(0, 2 ** 32 - 1))
+
+        def mate_selfing_global(geno1, geno2, sel1, sel2, xoprob, rng):  # class (4): nself >= 1 only (C08-c1)
+            if geno1 is geno2 and sel1 is sel2:
+                rng = prng.global_prng
+            return orig_mat_mate(geno1, geno2, sel1, sel2, xoprob, rng)
+
+        orig_mat_mate = twc.mat_mate
+
         return [
             ("seed_without_numpy", lambda: patch(prng, "seed", seed_py_only)),
             ("seed_numpy_from_os", lambda: patch(prng, "seed", seed_numpy_from_os)),
@@ -1473,6 +2788,22 @@ class C08(Prop):
             ("tiled_choice_default_rng_above_65536_draws", lambda: patch(sampling, "tiled_choice", tiled_default_rng_large)),
             ("spawn_from_os_above_64_streams", lambda: patch(prng, "spawn", spawn_from_os_large)),
             ("hillclimber_uses_global_in_select", lambda: patch(hc.SteepestDescentSubsetHillClimber, "minimize", hillclimber_global)),
+            ("mating_derives_generator_at_rng_assignment", lambda: patch(twc.TwoWayCross, "rng", derived_rng_property(twc.TwoWayCross))),
+            ("phenotyping_derives_generator_at_rng_assignment", lambda: patch(gep.G_E_Phenotyping, "rng", derived_rng_property(gep.G_E_Phenotyping))),
+            ("subset_ga_one_stream_per_object", lambda: patch(sga.SubsetGeneticAlgorithm, "minimize", ga_stream_per_object)),
+            ("tiled_choice_permutes_caller_options_full_set", lambda: patch(ssc, "tiled_choice", tiled_permutes_options)),
+            ("hillclimber_memoises_solution_per_object", lambda: patch(hc.SteepestDescentSubsetHillClimber, "minimize", hillclimber_memo)),
+            ("outcross_shuffle_cached_exchange_indices", lambda: patch(sampling, "outcross_shuffle", outcross_cached_indices)),
+            ("prng_uniform_wrapper_bound_to_private_generator", lambda: patch(prng, "uniform", private_uniform)),
+            ("legacy_hillclimber_draws_from_python_random", lambda: patch(uhc.UnconstrainedSteepestAscentSetHillClimber, "optimize", uncon_hc_python_random)),
+            ("jitter_os_generator_when_nearly_psd", lambda: patch(dcm.DenseCoancestryMatrix, "apply_jitter", jitter_os_when_nearly_psd)),
+            ("phenotyping_global_for_unequal_error_variances", lambda: patch(gep.G_E_Phenotyping, "phenotype", pheno_global_for_unequal_error_variances)),
+            ("dense_meiosis_copy_ignores_rng", lambda: patch(umate, "dense_meiosis", dense_meiosis_global)),
+            ("seed_keeps_cached_gaussian", lambda: patch(prng, "seed", seed_keeps_cached_gaussian)),
+            ("seed_zero_seeds_from_os", lambda: patch(prng, "seed", seed_zero_from_os)),
+            ("mating_selfing_generations_use_global", lambda: patch(twc, "mat_mate", mate_selfing_global)),
+            ("spawn_returns_streams_in_reverse_order", lambda: patch(prng, "spawn", spawn_reversed)),
+            ("seed_numpy_from_second_draw", lambda: patch(prng, "seed", seed_numpy_from_second_draw)),
         ]
 
 
